@@ -12,13 +12,31 @@ import (
 	"charonverif/internal/rt"
 )
 
+// The C05 rules are formulated over *terms* and *established facts* (internal/an/h05_ext.go) rather
+// than over the instruction shapes of today's functions:
+//
+//   - every value a rule talks about (the request, its Msg / Justification / Values parts, the duty, the
+//     key table) is a canonical term in the space of the anchor function; a helper's parameter is the
+//     argument it was called with, a getter is the field it returns, a local kept in memory is the value
+//     stored into it;
+//   - "check K passed before the sink" means: K (on the right terms) dominates the sink and with K failing
+//     the sink is unreachable — decided by valuation-driven path search (named bools, switches, phis,
+//     inverted polarity and explicit/early returns are all the same to it) — or a helper whose own status
+//     is checked establishes it at each of its successful returns, or it is established at the call site
+//     of the helper the sink lives in;
+//   - "for every justification" means a loop recognised as visiting every element once (range or index
+//     form) whose every iteration establishes the fact and which cannot be left early towards the sink.
+//
+// An unrecognised shape (a value the engine cannot trace, a loop it cannot classify) ends UNDECIDED; a
+// VIOLATION is only reported when a path or a precisely known different value is exhibited.
+
 const (
 	c05Q  = "core/consensus/qbft"
 	c05PB = "core/corepb/v1"
 )
 
 func c05(c *rt.Ctx) {
-	e := &c05env{c: c, getters: map[string]*ssa.Function{}}
+	e := &c05env{c: c}
 	c.Rule("A1", 11, func() { c05A1(e) })
 	c.Rule("A2", 13, func() { c05A2(e) })
 	c.Rule("A3", 10, func() { c05A3(e) })
@@ -31,109 +49,24 @@ func c05(c *rt.Ctx) {
 // shared helpers
 
 type c05env struct {
-	c       *rt.Ctx
-	getters map[string]*ssa.Function
+	c  *rt.Ctx
+	en *an.H05
 }
 
-// getter resolves the generated accessor of a protobuf field ("QBFTMsg.PeerIdx") and confirms
-// that it returns exactly that field of its receiver (or a zero constant for a nil receiver).
-func (e *c05env) getter(tf string) *ssa.Function {
-	if g, ok := e.getters[tf]; ok {
-		return g
-	}
-	typ, field, _ := strings.Cut(tf, ".")
-	fn := e.c.FnOpt(c05PB + "." + typ + ".Get" + field)
-	if fn == nil || len(fn.Params) == 0 {
-		e.c.Bail("accessor Get%s of %s.%s not found", field, c05PB, typ)
-	}
-	found := false
-	for _, r := range an.Returns(fn) {
-		if len(r.Results) != 1 {
-			e.c.Bail("accessor %s: unexpected result count", an.FuncName(fn))
-		}
-		if _, isConst := r.Results[0].(*ssa.Const); isConst {
-			continue
-		}
-		ld, ok := r.Results[0].(*ssa.UnOp)
-		if ok && ld.Op == token.MUL {
-			if fa, ok := ld.X.(*ssa.FieldAddr); ok && fa.X == ssa.Value(fn.Params[0]) && an.FieldKey(fa.X.Type(), fa.Field) == c05PB+"."+tf {
-				found = true
-				continue
-			}
-		}
-		e.c.Bail("accessor %s does not return field %s", an.FuncName(fn), tf)
-	}
-	if !found {
-		e.c.Bail("accessor %s never returns field %s", an.FuncName(fn), tf)
-	}
-	e.getters[tf] = fn
-	return fn
+// names of the functions the rules make statements about (never looked through when building terms)
+var c05Anchors = []string{
+	c05Q + ".verifyMsg", c05Q + ".verifyMsgLimits", c05Q + ".valuesByHash", c05Q + ".newMsg", c05Q + ".hashProto",
+	c05Q + ".verifyMsgSig", c05Q + ".signMsg", c05Q + ".toHash32", c05Q + ".Consensus.getRecvBuffer", c05Q + ".Consensus.handle",
 }
 
-// read reports whether v is a read of protobuf field tf ("QBFTMsg.Duty") — through the generated
-// accessor or a direct field load — and returns the message it is read from.
-func (e *c05env) read(v ssa.Value, tf string) (ssa.Value, bool) {
-	switch x := c05Local(v).(type) {
-	case *ssa.Call:
-		if !x.Call.IsInvoke() && x.Call.StaticCallee() == e.getter(tf) && len(x.Call.Args) == 1 {
-			return c05Local(x.Call.Args[0]), true
-		}
-	case *ssa.UnOp:
-		if x.Op == token.MUL {
-			if fa, ok := x.X.(*ssa.FieldAddr); ok && an.FieldKey(fa.X.Type(), fa.Field) == c05PB+"."+tf {
-				return c05Local(fa.X), true
-			}
+func (e *c05env) engine() *an.H05 {
+	if e.en == nil {
+		e.en = an.NewH05(e.c.SSAPkg(c05Q), e.c.SSAPkg(c05PB))
+		for _, a := range c05Anchors {
+			e.en.Anchors[a] = true
 		}
 	}
-	return nil, false
-}
-
-// c05Local looks through conversions and through loads of a local variable that is assigned exactly
-// once and whose address does not escape (a local spilled to memory only because one of its fields is
-// selected, e.g. `duty.Slot`). Anything else is returned unchanged.
-func c05Local(v ssa.Value) ssa.Value {
-	for i := 0; i < 8; i++ {
-		v = an.Unwrap(v)
-		ld, ok := v.(*ssa.UnOp)
-		if !ok || ld.Op != token.MUL {
-			return v
-		}
-		al, ok := ld.X.(*ssa.Alloc)
-		if !ok {
-			return v
-		}
-		src, ok := c05SingleStore(al)
-		if !ok {
-			return v
-		}
-		v = src
-	}
-	return v
-}
-
-// c05SingleStore returns the only value ever stored into a local whose address is used for nothing
-// but that store, loads and field reads.
-func c05SingleStore(al *ssa.Alloc) (ssa.Value, bool) {
-	var src ssa.Value
-	for _, ref := range *al.Referrers() {
-		switch r := ref.(type) {
-		case *ssa.Store:
-			if r.Addr != ssa.Value(al) || src != nil {
-				return nil, false
-			}
-			src = r.Val
-		case *ssa.UnOp, *ssa.DebugRef:
-		case *ssa.FieldAddr:
-			for _, r2 := range *r.Referrers() {
-				if u, ok := r2.(*ssa.UnOp); !ok || u.Op != token.MUL {
-					return nil, false
-				}
-			}
-		default:
-			return nil, false
-		}
-	}
-	return src, src != nil
+	return e.en
 }
 
 // c05CallsTo returns the plain calls (not go/defer) in fn whose static callee is target.
@@ -160,113 +93,143 @@ func c05Extract(tuple ssa.Value, idx int) ssa.Value {
 	return nil
 }
 
-// c05IsExtractOf: v is component idx of the tuple produced by call.
-func c05IsExtractOf(v ssa.Value, call ssa.Value, idx int) bool {
-	ex, ok := c05Local(v).(*ssa.Extract)
-	return ok && ex.Index == idx && ex.Tuple == call
-}
-
-// c05ErrFail returns, for every branch on the error value errv, the If and its failing successor
-// (the one taken when errv != nil).
-func c05ErrFail(fn *ssa.Function, errv ssa.Value) (out []struct {
-	If   *ssa.If
-	Fail *ssa.BasicBlock
-}) {
-	if errv == nil {
-		return nil
-	}
-	for _, cd := range an.CondsOn(fn, errv) {
-		if cd.Other == nil || !an.IsNilConst(cd.Other) || (cd.Op != token.EQL && cd.Op != token.NEQ) {
-			continue
-		}
-		out = append(out, struct {
-			If   *ssa.If
-			Fail *ssa.BasicBlock
-		}{cd.If, cd.Succ(cd.Op == token.NEQ)})
-	}
-	return out
-}
-
-// c05Forall is the complete forall-loop obligation: ForallGuard plus "the loop cannot be left
-// early towards the sink".
-func c05Forall(l *an.Loop, iff *ssa.If, fail *ssa.BasicBlock, sink ssa.Instruction) (bool, string) {
-	if ok, why := an.ForallGuard(l, iff, fail, sink); !ok {
-		return false, why
-	}
-	if b := an.C05LoopLeavesOnlyAtHeader(l, sink); b != nil {
-		return false, "the loop can be left early (break) towards the sink before every element was checked"
-	}
-	return true, "every element passes the guard before the sink"
-}
-
-// c05VariadicElems returns the elements of a variadic argument slice built at the call site.
-func c05VariadicElems(v ssa.Value) ([]ssa.Value, bool) {
-	if k, ok := v.(*ssa.Const); ok && k.Value == nil {
-		return nil, true
-	}
-	sl, ok := v.(*ssa.Slice)
-	if !ok {
-		return nil, false
-	}
-	al, ok := sl.X.(*ssa.Alloc)
-	if !ok {
-		return nil, false
-	}
-	var out []ssa.Value
-	for _, ref := range *al.Referrers() {
-		switch r := ref.(type) {
-		case *ssa.IndexAddr:
-			for _, r2 := range *r.Referrers() {
-				if st, ok := r2.(*ssa.Store); ok && st.Addr == ssa.Value(r) {
-					out = append(out, st.Val)
-				}
-			}
-		case *ssa.Slice:
-		default:
-			return nil, false
-		}
-	}
-	return out, true
-}
-
-// c05Spilled resolves a load of a local (named result spilled because of defer, address-taken
-// local) to the value last stored into it in the same block before `at`.
-func c05Spilled(v ssa.Value, at ssa.Instruction) ssa.Value {
-	ld, ok := v.(*ssa.UnOp)
-	if !ok || ld.Op != token.MUL {
-		return v
-	}
-	al, ok := ld.X.(*ssa.Alloc)
-	if !ok {
-		return v
-	}
-	var last ssa.Value
-	for _, in := range at.Block().Instrs {
-		if in == at || in == ssa.Instruction(ld) {
-			break
-		}
-		if st, ok := in.(*ssa.Store); ok && st.Addr == ssa.Value(al) {
-			last = st.Val
-		}
-	}
-	if last == nil {
-		return v
-	}
-	return last
-}
-
 func c05IsNilErr(v ssa.Value) bool {
 	k, ok := v.(*ssa.Const)
 	return ok && k.Value == nil
 }
 
-func c05Builtin(v ssa.Value, name string) (*ssa.Call, bool) {
-	call, ok := v.(*ssa.Call)
-	if !ok {
-		return nil, false
+// site is an instruction together with the activation it belongs to.
+type c05site struct {
+	in ssa.Instruction
+	f  *an.H05Frame
+}
+
+// c05Find lists the calls to the named function reachable from root.
+func c05Find(en *an.H05, root *an.H05Frame, name string) []c05site {
+	var out []c05site
+	en.Walk(root, func(in ssa.Instruction, f *an.H05Frame) {
+		if g, ok := in.(*ssa.Call); ok && an.H05CalleeIs(g, name) {
+			out = append(out, c05site{g, f})
+		}
+	})
+	return out
+}
+
+// c05One returns the single call to name reachable from root or bails.
+func c05One(c *rt.Ctx, en *an.H05, root *an.H05Frame, name, short string) (*ssa.Call, *an.H05Frame) {
+	s := c05Find(en, root, name)
+	if len(s) != 1 {
+		c.Bail("%s: expected exactly one call to %s (in the function or the helpers it calls), found %d", short, name, len(s))
 	}
-	b, ok := call.Call.Value.(*ssa.Builtin)
-	return call, ok && b.Name() == name
+	return s[0].in.(*ssa.Call), s[0].f
+}
+
+// report turns a verdict into an obligation.
+func c05Report(c *rt.Ctx, construct string, pos token.Pos, v an.H05Verdict, okDetail string) bool {
+	switch {
+	case v.Yes:
+		p := pos
+		if v.Wit != nil && v.Wit.Pos().IsValid() {
+			p = v.Wit.Pos()
+		}
+		c.Good(construct, p, okDetail)
+		return true
+	case v.Unsure:
+		c.Unsure(construct, pos, v.Why)
+	default:
+		c.Bad(construct, pos, v.Why)
+	}
+	return false
+}
+
+// c05CallQ builds the query "a call to the named static function on the given argument terms succeeded".
+// A call to the function on arguments the engine could not trace makes a missing fact undecided.
+func c05CallQ(name string, spec an.H05Spec, missing string, args ...*an.H05Term) *c05callQ {
+	return &c05callQ{name: name, spec: spec, missing: missing, args: args,
+		callee: func(en *an.H05, g *ssa.Call, f *an.H05Frame) bool { return an.H05CalleeIs(g, name) }}
+}
+
+type c05callQ struct {
+	name    string
+	spec    an.H05Spec
+	missing string
+	args    []*an.H05Term // nil entries match anything
+	callee  func(en *an.H05, g *ssa.Call, f *an.H05Frame) bool
+	argsOf  func(g *ssa.Call) []ssa.Value // default: g.Call.Args
+}
+
+func (q *c05callQ) ID() string {
+	s := "c05call:" + q.name
+	for _, a := range q.args {
+		s += "|" + a.Key()
+	}
+	return s
+}
+
+func (q *c05callQ) Direct(en *an.H05, site ssa.Instruction, f *an.H05Frame, acc an.H05Accept) an.H05Verdict {
+	best := an.H05Verdict{Why: q.missing}
+	for _, b := range f.Fn.Blocks {
+		for _, in := range b.Instrs {
+			g, ok := in.(*ssa.Call)
+			if !ok || !q.callee(en, g, f) {
+				continue
+			}
+			args := g.Call.Args
+			if q.argsOf != nil {
+				args = q.argsOf(g)
+			}
+			if len(args) != len(q.args) {
+				continue
+			}
+			match, untraced := true, false
+			for i, w := range q.args {
+				if w == nil {
+					continue
+				}
+				t := en.Term(args[i], f)
+				if t.Key() != w.Key() {
+					match = false
+					untraced = untraced || t.Untraced()
+				}
+			}
+			if !match {
+				if untraced {
+					best = c05Better(best, an.H05Verdict{Unsure: true, Cand: true, Why: q.name + " is applied to a value the checker cannot trace back to the request"})
+				} else if !best.Cand {
+					best.Why = q.missing + " (" + q.name + " is applied to something else)"
+				}
+				continue
+			}
+			v := en.Checked(g, q.spec, site, acc)
+			if v.Yes {
+				v.WitFrame = f
+				return v
+			}
+			best = c05Better(best, v)
+		}
+	}
+	return best
+}
+
+func c05Rank(v an.H05Verdict) int {
+	switch {
+	case v.Yes:
+		return 4
+	case v.Unsure:
+		return 3
+	case v.Cand:
+		return 2
+	case v.Why != "":
+		return 1
+	}
+	return 0
+}
+
+func c05Better(a, b an.H05Verdict) an.H05Verdict {
+	if c05Rank(b) > c05Rank(a) {
+		return b
+	}
+	return a
 }
 
 // ---------------------------------------------------------------------------------------------
@@ -274,6 +237,7 @@ func c05Builtin(v ssa.Value, name string) (*ssa.Call, bool) {
 
 type c05sink struct {
 	in      ssa.Instruction
+	f       *an.H05Frame
 	ch, val ssa.Value
 }
 
@@ -286,76 +250,144 @@ func c05IsPtr(t types.Type) bool { _, ok := t.(*types.Pointer); return ok }
 
 // c05Handle bundles the resolved entities of Consensus.handle shared by A1 and A3.
 type c05Handle struct {
-	fn     *ssa.Function
-	pb     ssa.Value // the *pbv1.QBFTConsensusMsg under inspection
-	sinks  []c05sink
-	isMain func(ssa.Value) bool
-	isDuty func(ssa.Value) bool
+	fn    *ssa.Function
+	root  *an.H05Frame
+	sinks []c05sink
+	// terms
+	recv, pb, msg, just, values, duty, pubkeys, peers *an.H05Term
+	// a dynamic call other than the gater / deadliner receives (part of) the request: it may hold checks
+	untraced string
 }
 
-func c05ResolveHandle(e *c05env) *c05Handle {
-	c := e.c
-	h := &c05Handle{fn: c.Fn(c05Q + ".Consensus.handle")}
-	dfp := c.Fn("core.DutyFromProto")
-	for _, in := range an.Instrs(h.fn, false) {
-		ta, ok := in.(*ssa.TypeAssert)
-		if !ok || an.TypeName(ta.AssertedType) != c05PB+".QBFTConsensusMsg" {
-			continue
-		}
-		if _, isParam := ta.X.(*ssa.Parameter); !isParam {
-			continue
-		}
-		var v ssa.Value = ta
-		if ta.CommaOk {
-			v = c05Extract(ta, 0)
-		}
-		if h.pb != nil || v == nil {
-			c.Bail("handle: cannot identify the single type assertion of the request to *QBFTConsensusMsg")
-		}
-		h.pb = v
-	}
-	if h.pb == nil {
-		c.Bail("handle: request is not asserted to *QBFTConsensusMsg")
-	}
-	h.isMain = func(v ssa.Value) bool {
-		b, ok := e.read(v, "QBFTConsensusMsg.Msg")
-		return ok && b == h.pb
-	}
-	h.isDuty = func(v ssa.Value) bool {
-		call, ok := c05Local(v).(*ssa.Call)
-		if !ok || call.Call.IsInvoke() || call.Call.StaticCallee() != dfp || len(call.Call.Args) != 1 {
-			return false
-		}
-		b, ok := e.read(call.Call.Args[0], "QBFTMsg.Duty")
-		return ok && h.isMain(b)
-	}
-	// a tracked value kept in a local whose address escapes (captured by a closure, passed by pointer)
-	// cannot be followed: undecided rather than a wrong verdict
-	for _, in := range an.Instrs(h.fn, false) {
-		st, ok := in.(*ssa.Store)
-		if !ok {
-			continue
-		}
-		al, ok := st.Addr.(*ssa.Alloc)
-		if !ok {
-			continue
-		}
-		if v := c05Local(st.Val); v == h.pb || h.isDuty(v) {
-			if _, ok := c05SingleStore(al); !ok {
-				c.Bail("handle: the request or its duty is kept in local %q whose address escapes or which is reassigned; the rule cannot follow it", al.Comment)
-			}
-		}
-	}
-	for _, in := range an.Instrs(h.fn, true) {
+func c05SendsIn(fn *ssa.Function) bool {
+	for _, in := range an.Instrs(fn, true) {
 		switch x := in.(type) {
 		case *ssa.Send:
 			if c05MsgChan(x.Chan.Type()) {
-				h.sinks = append(h.sinks, c05sink{x, x.Chan, x.X})
+				return true
 			}
 		case *ssa.Select:
 			for _, st := range x.States {
 				if st.Dir == types.SendOnly && c05MsgChan(st.Chan.Type()) {
-					h.sinks = append(h.sinks, c05sink{x, st.Chan, st.Send})
+					return true
+				}
+			}
+		}
+	}
+	return false
+}
+
+func c05ResolveHandle(e *c05env) *c05Handle {
+	c := e.c
+	en := e.engine()
+	h := &c05Handle{fn: c.Fn(c05Q + ".Consensus.handle")}
+	h.root = en.Root(h.fn)
+	if len(h.fn.Params) < 2 {
+		c.Bail("handle: unexpected signature")
+	}
+	h.recv = en.Term(h.fn.Params[0], h.root)
+	visited := map[*ssa.Function]bool{}
+	// the request: the parameter asserted to *QBFTConsensusMsg (in handle or a helper it calls)
+	en.Walk(h.root, func(in ssa.Instruction, f *an.H05Frame) {
+		visited[f.Fn] = true
+		ta, ok := in.(*ssa.TypeAssert)
+		if !ok || an.TypeName(ta.AssertedType) != c05PB+".QBFTConsensusMsg" {
+			return
+		}
+		var v ssa.Value = ta
+		if ta.CommaOk {
+			if v = c05Extract(ta, 0); v == nil {
+				return
+			}
+		}
+		t := en.Term(v, f)
+		if len(t.Args) != 1 || !t.Args[0].Is("param") || t.Args[0].Frame != h.root {
+			return
+		}
+		if h.pb != nil && !an.H05Same(h.pb, t) {
+			c.Bail("handle: more than one parameter is asserted to *QBFTConsensusMsg")
+		}
+		h.pb = t
+	})
+	if h.pb == nil {
+		c.Bail("handle: request is not asserted to *QBFTConsensusMsg")
+	}
+	fld := func(typ, f string, base *an.H05Term) *an.H05Term { return an.H05Field(typ+"."+f, base) }
+	h.msg = fld(c05PB+".QBFTConsensusMsg", "Msg", h.pb)
+	h.just = fld(c05PB+".QBFTConsensusMsg", "Justification", h.pb)
+	h.values = fld(c05PB+".QBFTConsensusMsg", "Values", h.pb)
+	h.duty = an.H05CallT("core.DutyFromProto", fld(c05PB+".QBFTMsg", "Duty", h.msg))
+	h.pubkeys = fld(c05Q+".Consensus", "pubkeys", h.recv)
+	h.peers = fld(c05Q+".Consensus", "peers", h.recv)
+	gater := fld(c05Q+".Consensus", "gaterFunc", h.recv)
+	deadliner := fld(c05Q+".Consensus", "deadliner", h.recv)
+
+	en.Walk(h.root, func(in ssa.Instruction, f *an.H05Frame) {
+		switch x := in.(type) {
+		case *ssa.Send:
+			if c05MsgChan(x.Chan.Type()) {
+				h.sinks = append(h.sinks, c05sink{x, f, x.Chan, x.X})
+			}
+		case *ssa.Select:
+			for _, st := range x.States {
+				if st.Dir == types.SendOnly && c05MsgChan(st.Chan.Type()) {
+					h.sinks = append(h.sinks, c05sink{x, f, st.Chan, st.Send})
+				}
+			}
+		case ssa.CallInstruction:
+			cc := x.Common()
+			if cc.StaticCallee() != nil {
+				if _, isB := cc.Value.(*ssa.Builtin); !isB && en.Child(f, x) == nil && !cc.IsInvoke() {
+					// a static callee that is not followed: only in-package ones could hold the checks
+					if callee := cc.StaticCallee(); callee.Pkg == h.fn.Pkg && !en.Anchors[an.FuncName(callee)] {
+						for _, a := range cc.Args {
+							if t := en.Term(a, f); t.Contains(h.pb) {
+								h.untraced = an.FuncName(callee)
+							}
+						}
+					}
+				}
+				return
+			}
+			if _, isB := cc.Value.(*ssa.Builtin); isB {
+				return
+			}
+			vt := en.Term(cc.Value, f)
+			if an.H05Same(vt, gater) || (cc.IsInvoke() && an.H05Same(vt, deadliner)) {
+				return
+			}
+			for _, a := range cc.Args {
+				if t := en.Term(a, f); t.Contains(h.pb) {
+					if n := an.CalleeName(cc); n != "" {
+						h.untraced = "a call through " + n
+					} else {
+						h.untraced = "a dynamically chosen function"
+					}
+				}
+			}
+		case *ssa.Store:
+			// the checks and the uses read the request separately: nothing may write to it in between
+			if t := en.Term(x.Addr, f); (t.Is("fieldaddr") || t.Is("indexaddr") || t.Is("addrof")) && c05PartOf(t, h.pb) {
+				c.Unsure("handle request is not modified", x.Pos(), "handle (or a helper) writes into the request message; checks and later reads may see different values")
+			}
+		}
+	})
+	// sends from function literals that are not called directly cannot be ordered against the checks
+	for fn := range visited {
+		for _, a := range fn.AnonFuncs {
+			if visited[a] {
+				continue
+			}
+			if c05SendsIn(a) {
+				c.Unsure("handle send in closure", a.Pos(), "a Msg is sent from a function literal that is not called directly; dominance by the checks cannot be decided")
+			}
+			// a literal that is stored or handed to other code (a list of checks, a worker pool) and calls
+			// into the package may hold the checks
+			for _, in := range an.Instrs(a, true) {
+				if ci, ok := in.(ssa.CallInstruction); ok {
+					if callee := ci.Common().StaticCallee(); callee != nil && callee.Pkg == h.fn.Pkg {
+						h.untraced = "a function literal that is not called directly"
+					}
 				}
 			}
 		}
@@ -366,231 +398,130 @@ func c05ResolveHandle(e *c05env) *c05Handle {
 	return h
 }
 
+// c05PartOf: the term selects a part (field, element, address of one) of the object obj itself — not of a
+// copy or of a value computed from it.
+func c05PartOf(t, obj *an.H05Term) bool {
+	for i := 0; i < 12 && t != nil; i++ {
+		if an.H05Same(t, obj) {
+			return true
+		}
+		switch t.Op {
+		case "fieldaddr", "field", "indexaddr", "index", "elem", "addrof", "deref":
+			if len(t.Args) == 0 {
+				return false
+			}
+			t = t.Args[0]
+		default:
+			return false
+		}
+	}
+	return false
+}
+
+// est evaluates a query at a sink (through helper summaries and up the call chain) and downgrades a plain
+// "not found" to undecided when part of the request is handed to code the engine cannot see into.
+func (h *c05Handle) est(en *an.H05, q an.H05Query, in ssa.Instruction, f *an.H05Frame) an.H05Verdict {
+	v := en.Established(q, in, f, nil, true)
+	if !v.Yes && !v.Unsure && !v.Cand && h.untraced != "" {
+		v.Unsure = true
+		v.Why = v.Why + "; the request is handed to " + h.untraced + ", which the checker cannot look into"
+	}
+	return v
+}
+
 func c05A1(e *c05env) {
 	c := e.c
+	en := e.engine()
 	h := c05ResolveHandle(e)
-	fn := h.fn
-	vm := c.Fn(c05Q + ".verifyMsg")
-	vl := c.Fn(c05Q + ".verifyMsgLimits")
-	vbh := c.Fn(c05Q + ".valuesByHash")
-	nm := c.Fn(c05Q + ".newMsg")
-	grb := c.Fn(c05Q + ".Consensus.getRecvBuffer")
 	expired := constOf(c, "core", "DeadlineExpired")
 	const cons = c05Q + ".Consensus"
-	isPubkeys := func(v ssa.Value) bool { return isLoadOfValueField(v, cons+".pubkeys") }
-	fromPB := func(v ssa.Value, field string) bool {
-		b, ok := e.read(v, "QBFTConsensusMsg."+field)
-		return ok && b == h.pb
+	lenOf := func(t *an.H05Term) *an.H05Term { return an.H05T("builtin", "len", t) }
+	vals0 := an.H05ExtractT(0, an.H05CallT(c05Q+".valuesByHash", h.values))
+	built := an.H05ExtractT(0, an.H05CallT(c05Q+".newMsg", h.msg, h.just, vals0))
+
+	qMain := c05CallQ(c05Q+".verifyMsg", an.H05ErrNil, "no verifyMsg(pbMsg.GetMsg(), c.pubkeys) call in handle", h.msg, h.pubkeys)
+	qGater := &c05callQ{name: "c.gaterFunc", spec: an.H05Spec{BoolIdx: 0, BoolWant: true}, args: []*an.H05Term{h.duty},
+		missing: "no c.gaterFunc(duty) call on the message's duty in handle",
+		callee: func(en *an.H05, g *ssa.Call, f *an.H05Frame) bool {
+			if g.Call.IsInvoke() || g.Call.StaticCallee() != nil {
+				return false
+			}
+			return an.H05Same(en.Term(g.Call.Value, f), an.H05Field(cons+".gaterFunc", h.recv))
+		}}
+	limitsQ := func(n *an.H05Term) an.H05Query {
+		return c05CallQ(c05Q+".verifyMsgLimits", an.H05ErrNil, "no verifyMsgLimits(pbMsg, len(c.pubkeys)) call in handle", h.pb, lenOf(n))
 	}
+	qJust := &an.H05ForallQ{Name: "verifyMsg", Coll: h.just,
+		Missing: "no verifyMsg call on the elements of a loop over pbMsg.GetJustification()",
+		Inner: func(elem *an.H05Term) an.H05Query {
+			return c05CallQ(c05Q+".verifyMsg", an.H05ErrNil, "no verifyMsg(justification, c.pubkeys) call in the loop", elem, h.pubkeys)
+		}}
+	qDuty := &an.H05ForallQ{Name: "dutyeq", Coll: h.just,
+		Missing: "no comparison of DutyFromProto(justification.GetDuty()) with the message duty in a loop over pbMsg.GetJustification()",
+		Inner: func(elem *an.H05Term) an.H05Query {
+			return &an.H05EqQ{A: an.H05CallT("core.DutyFromProto", an.H05Field(c05PB+".QBFTMsg.Duty", elem)), B: h.duty,
+				Missing: "no comparison of the justification's duty with the message duty in the loop"}
+		}}
+	qValues := c05CallQ(c05Q+".valuesByHash", an.H05ErrNil, "no valuesByHash(pbMsg.GetValues()) call in handle", h.values)
+	qBuilt := c05CallQ(c05Q+".newMsg", an.H05ErrNil, "no newMsg(pbMsg.GetMsg(), pbMsg.GetJustification(), values) call over the verified parts in handle", h.msg, h.just, vals0)
+	qDeadline := &c05callQ{name: "c.deadliner.Add", spec: an.H05Spec{BoolIdx: -1, NotConst: constant.MakeInt64(expired)}, args: []*an.H05Term{h.duty},
+		missing: "no c.deadliner.Add(duty) on the message's duty before the send",
+		callee: func(en *an.H05, g *ssa.Call, f *an.H05Frame) bool {
+			return an.Invoke("core.Deadliner.Add")(&g.Call) && an.H05Same(en.Term(g.Call.Value, f), an.H05Field(cons+".deadliner", h.recv))
+		}}
 
 	for _, sk := range h.sinks {
-		if sk.in.Parent() != fn {
-			c.Unsure("handle send in closure", posOf(sk.in), "a Msg is sent from a function literal inside handle; dominance by the checks cannot be decided")
-			continue
+		sink, f := sk.in, sk.f
+		pos := posOf(sink)
+		c05Report(c, "handle verifyMsg(msg)→recvBuffer", pos, h.est(en, qMain, sink, f), "checked guard dominates the send")
+		c05Report(c, "handle gaterFunc(duty)→recvBuffer", pos, h.est(en, qGater, sink, f), "checked guard dominates the send")
+		limits := h.est(en, limitsQ(h.pubkeys), sink, f)
+		if !limits.Yes {
+			limits = c05Better(limits, h.est(en, limitsQ(h.peers), sink, f))
 		}
-		sink := sk.in
-		guarded := func(construct string, cands []ssa.CallInstruction, opt an.GuardOpt, missing string) ssa.CallInstruction {
-			why := missing
-			phi := false
-			for _, g := range cands {
-				ok, w := an.Guarded(g, sink, opt)
-				if ok {
-					c.Good(construct, g.Pos(), "checked guard dominates the send")
-					return g
-				}
-				why = w
-				phi = phi || c05StatusMerged(g)
-			}
-			if phi {
-				c.Unsure(construct, posOf(sink), "the guard's status is merged with other values before it is tested; not decidable by dominance ("+why+")")
-				return nil
-			}
-			c.Bad(construct, posOf(sink), why)
-			return nil
-		}
+		c05Report(c, "handle verifyMsgLimits(pbMsg)→recvBuffer", pos, limits, "checked guard dominates the send")
 
-		// G1 main message verified against the cluster keys
-		var cands []ssa.CallInstruction
-		for _, g := range c05CallsTo(fn, vm) {
-			if h.isMain(g.Call.Args[0]) && isPubkeys(g.Call.Args[1]) {
-				cands = append(cands, g)
+		jv := h.est(en, qJust, sink, f)
+		c05Report(c, "handle forall justification verifyMsg→recvBuffer", pos, jv, "every justification passes verifyMsg before the send")
+		if limits.Yes && jv.Yes && jv.Wit != nil {
+			// the limits are checked before the per-justification signature work
+			lv := h.est(en, limitsQ(h.pubkeys), jv.Wit, jv.WitFrame)
+			if !lv.Yes {
+				lv = c05Better(lv, h.est(en, limitsQ(h.peers), jv.Wit, jv.WitFrame))
 			}
+			if !lv.Yes && !lv.Unsure {
+				lv.Why = "verifyMsgLimits does not guard the per-justification verification: " + lv.Why
+			}
+			c05Report(c, "handle verifyMsgLimits before justification loop", pos, lv, "")
 		}
-		guarded("handle verifyMsg(msg)→recvBuffer", cands, an.DefaultGuard, "no verifyMsg(pbMsg.GetMsg(), c.pubkeys) call in handle")
-
-		// G2 duty gater
-		cands = nil
-		for _, g := range an.Calls(fn, an.FieldCall(cons+".gaterFunc"), false) {
-			if _, isCall := g.(*ssa.Call); isCall && len(g.Common().Args) == 1 && h.isDuty(g.Common().Args[0]) {
-				cands = append(cands, g)
-			}
+		c05Report(c, "handle forall justification duty==msg duty→recvBuffer", pos, h.est(en, qDuty, sink, f), "every justification's duty equals the message duty")
+		c05Report(c, "handle valuesByHash(values)→recvBuffer", pos, h.est(en, qValues, sink, f), "checked guard dominates the send")
+		c05Report(c, "handle newMsg(msg,justification,values)→recvBuffer", pos, h.est(en, qBuilt, sink, f), "checked guard dominates the send")
+		dv := h.est(en, qDeadline, sink, f)
+		if !dv.Yes && !dv.Unsure && dv.Cand && strings.Contains(dv.Why, "reachable although") {
+			dv.Why = "the send is reachable when deadliner.Add reports DeadlineExpired"
 		}
-		guarded("handle gaterFunc(duty)→recvBuffer", cands, an.GuardOpt{BoolIdx: 0, BoolWant: true, NoErr: true}, "no c.gaterFunc(duty) call on the message's duty in handle")
-
-		// G3 count limits
-		cands = nil
-		for _, g := range c05CallsTo(fn, vl) {
-			if c05Local(g.Call.Args[0]) != h.pb {
-				continue
-			}
-			if ln, ok := c05Builtin(g.Call.Args[1], "len"); ok && (isPubkeys(ln.Call.Args[0]) || isLoadOfValueField(ln.Call.Args[0], cons+".peers")) {
-				cands = append(cands, g)
-			}
-		}
-		limits := guarded("handle verifyMsgLimits(pbMsg)→recvBuffer", cands, an.DefaultGuard, "no verifyMsgLimits(pbMsg, len(c.pubkeys)) call in handle")
-
-		// G4 every justification verified
-		var justVerify *ssa.Call
-		{
-			good, why := false, "no verifyMsg call on the elements of a loop over pbMsg.GetJustification()"
-			for _, g := range c05CallsTo(fn, vm) {
-				l := an.InnermostLoop(fn, g.Block())
-				if l == nil || !l.ElemOf(g.Call.Args[0]) || l.RangeColl() == nil || !fromPB(l.RangeColl(), "Justification") {
-					continue
-				}
-				if !isPubkeys(g.Call.Args[1]) {
-					why = "justification verified against something other than c.pubkeys"
-					continue
-				}
-				justVerify = g
-				why = "error of the per-justification verifyMsg is not branched on"
-				for _, br := range c05ErrFail(fn, g) {
-					ok, w := c05Forall(l, br.If, br.Fail, sink)
-					if ok {
-						good = true
-					} else {
-						why = w
-					}
-				}
-				if good {
-					break
-				}
-			}
-			switch {
-			case !good && justVerify != nil && c05StatusMerged(justVerify):
-				c.Unsure("handle forall justification verifyMsg→recvBuffer", posOf(sink), "the error of the per-justification verifyMsg is merged with other values before it is tested ("+why+")")
-			case !good && justVerify == nil && c05Delegated(e, h, sink) != "":
-				c.Unsure("handle forall justification verifyMsg→recvBuffer", posOf(sink), "justifications are handed to "+c05Delegated(e, h, sink)+"; the per-justification checks are not in handle")
-			default:
-				c.Check("handle forall justification verifyMsg→recvBuffer", posOf(sink), good, why)
-			}
-		}
-
-		// G3b limits are checked before the per-justification signature work
-		if limits != nil && justVerify != nil {
-			ok, w := an.Guarded(limits, justVerify, an.DefaultGuard)
-			c.Check("handle verifyMsgLimits before justification loop", limits.Pos(), ok, "verifyMsgLimits does not guard the per-justification verification: "+w)
-		}
-
-		// G5 every justification refers to the message's duty
-		{
-			good, why := false, "no comparison of DutyFromProto(justification.GetDuty()) with the message duty in a loop over pbMsg.GetJustification()"
-			dfp := c.Fn("core.DutyFromProto")
-			for _, blk := range fn.Blocks {
-				iff, ok := blk.Instrs[len(blk.Instrs)-1].(*ssa.If)
-				if !ok {
-					continue
-				}
-				l := an.InnermostLoop(fn, blk)
-				if l == nil || l.RangeColl() == nil || !fromPB(l.RangeColl(), "Justification") {
-					continue
-				}
-				cond, neg := iff.Cond, false
-				for {
-					u, ok := cond.(*ssa.UnOp)
-					if !ok || u.Op != token.NOT {
-						break
-					}
-					cond, neg = u.X, !neg
-				}
-				bin, ok := cond.(*ssa.BinOp)
-				if !ok || (bin.Op != token.EQL && bin.Op != token.NEQ) {
-					continue
-				}
-				isJustDuty := func(v ssa.Value) bool {
-					jd, ok := c05Local(v).(*ssa.Call)
-					if !ok || jd.Call.IsInvoke() || jd.Call.StaticCallee() != dfp {
-						return false
-					}
-					b, ok := e.read(jd.Call.Args[0], "QBFTMsg.Duty")
-					return ok && l.ElemOf(b)
-				}
-				if !(isJustDuty(bin.X) && h.isDuty(bin.Y)) && !(isJustDuty(bin.Y) && h.isDuty(bin.X)) {
-					continue
-				}
-				differs := (bin.Op == token.NEQ) != neg // condition true means "duties differ"
-				fail := blk.Succs[1]
-				if differs {
-					fail = blk.Succs[0]
-				}
-				ok2, w := c05Forall(l, iff, fail, sink)
-				if ok2 {
-					good = true
-				} else {
-					why = "duty comparison: " + w
-				}
-			}
-			if d := c05Delegated(e, h, sink); !good && d != "" {
-				c.Unsure("handle forall justification duty==msg duty→recvBuffer", posOf(sink), "justifications are handed to "+d+"; the duty comparison is not in handle")
-			} else {
-				c.Check("handle forall justification duty==msg duty→recvBuffer", posOf(sink), good, why)
-			}
-		}
-
-		// G6 values re-indexed by recomputed hash
-		cands = nil
-		for _, g := range c05CallsTo(fn, vbh) {
-			if fromPB(g.Call.Args[0], "Values") {
-				cands = append(cands, g)
-			}
-		}
-		values := guarded("handle valuesByHash(values)→recvBuffer", cands, an.DefaultGuard, "no valuesByHash(pbMsg.GetValues()) call in handle")
-
-		// G7 message construction (hash presence) from the same three parts
-		cands = nil
-		for _, g := range c05CallsTo(fn, nm) {
-			if values != nil && h.isMain(g.Call.Args[0]) && fromPB(g.Call.Args[1], "Justification") && c05IsExtractOf(g.Call.Args[2], values.Value(), 0) {
-				cands = append(cands, g)
-			}
-		}
-		built := guarded("handle newMsg(msg,justification,values)→recvBuffer", cands, an.DefaultGuard,
-			"no newMsg(pbMsg.GetMsg(), pbMsg.GetJustification(), values) call over the verified parts in handle")
-
-		// G8 expired duties are dropped
-		{
-			good, why := false, "no c.deadliner.Add(duty) on the message's duty before the send"
-			for _, g := range an.Calls(fn, an.Invoke("core.Deadliner.Add"), false) {
-				call, ok := g.(*ssa.Call)
-				if !ok || !isLoadOfValueField(call.Call.Value, cons+".deadliner") || !h.isDuty(call.Call.Args[0]) {
-					continue
-				}
-				if !an.Dominates(call, sink) {
-					why = "deadliner.Add does not dominate the send"
-					continue
-				}
-				env := func(v ssa.Value) (constant.Value, bool) {
-					if v == ssa.Value(call) {
-						return constant.MakeInt64(expired), true
-					}
-					return nil, false
-				}
-				if an.C05ReachUnder(call, sink, env) {
-					why = "the send is reachable when deadliner.Add reports DeadlineExpired"
-					continue
-				}
-				good = true
-			}
-			c.Check("handle deadliner.Add(duty) expired→no send", posOf(sink), good, why)
-		}
+		c05Report(c, "handle deadliner.Add(duty) expired→no send", pos, dv, "")
 
 		// the value sent and the buffer it is sent to
-		c.Check("handle sent value is newMsg result", posOf(sink), built != nil && c05IsExtractOf(sk.val, built.Value(), 0),
-			"the Msg sent to the receive buffer is not the result of the checked newMsg call")
-		chOK := false
-		if call, ok := sk.ch.(*ssa.Call); ok && !call.Call.IsInvoke() && call.Call.StaticCallee() == grb && len(call.Call.Args) == 2 {
-			chOK = h.isDuty(call.Call.Args[1])
+		sent := en.Term(sk.val, f)
+		switch {
+		case an.H05Same(sent, built):
+			c.Good("handle sent value is newMsg result", pos, "")
+		case sent.Untraced():
+			c.Unsure("handle sent value is newMsg result", pos, "the value sent cannot be traced to its origin")
+		default:
+			c.Bad("handle sent value is newMsg result", pos, "the Msg sent to the receive buffer is not the result of the checked newMsg call")
 		}
-		c.Check("handle buffer is getRecvBuffer(msg duty)", posOf(sink), chOK, "the channel is not c.getRecvBuffer(duty) for the duty of the verified message")
+		ch := en.Term(sk.ch, f)
+		switch {
+		case an.H05Same(ch, an.H05CallT(cons+".getRecvBuffer", h.recv, h.duty)):
+			c.Good("handle buffer is getRecvBuffer(msg duty)", pos, "")
+		case ch.Untraced():
+			c.Unsure("handle buffer is getRecvBuffer(msg duty)", pos, "the channel cannot be traced to its origin")
+		default:
+			c.Bad("handle buffer is getRecvBuffer(msg duty)", pos, "the channel is not c.getRecvBuffer(duty) for the duty of the verified message")
+		}
 	}
 }
 
@@ -603,108 +534,137 @@ const (
 	c05Hasher  = "github.com/ferranbt/fastssz.Hasher"
 )
 
-// c05HashOf: v is `hash[:]` (or hash) of the [32]byte produced by call hp.
-func c05HashOf(v ssa.Value, hp ssa.Value) bool {
-	v = an.Unwrap(v)
-	if sl, ok := v.(*ssa.Slice); ok {
-		al, ok := sl.X.(*ssa.Alloc)
-		if !ok || sl.Low != nil || sl.High != nil {
-			return false
-		}
-		n := 0
-		good := false
-		for _, ref := range *al.Referrers() {
-			if st, ok := ref.(*ssa.Store); ok && st.Addr == ssa.Value(al) {
-				n++
-				good = c05IsExtractOf(st.Val, hp, 0)
-			}
-		}
-		return n == 1 && good
-	}
-	return c05IsExtractOf(v, hp, 0)
-}
-
-// c05SignedClone checks, in verifyMsgSig/signMsg, that the value hashed is proto.Clone(msg) with
-// only Signature cleared. Returns the hashProto call and the clone.
-func c05SignedClone(e *c05env, fn *ssa.Function, short string) (hp *ssa.Call, clone ssa.Value) {
+// c05SignedClone checks, in verifyMsgSig/signMsg (and the helpers they call), that the value hashed is
+// proto.Clone(msg) with only Signature cleared. Returns the hashProto call, its frame and the term of the
+// clone (nil if it is not the clone).
+func c05SignedClone(e *c05env, root *an.H05Frame, short string) (hp *ssa.Call, hf *an.H05Frame, clone *an.H05Term) {
 	c := e.c
-	hashProto := c.Fn(c05Q + ".hashProto")
-	hps := c05CallsTo(fn, hashProto)
-	if len(hps) != 1 {
-		c.Bail("%s: expected exactly one hashProto call, found %d", short, len(hps))
+	en := e.engine()
+	hp, hf = c05One(c, en, root, c05Q+".hashProto", short)
+	msgT := en.Term(root.Fn.Params[0], root)
+	// proto.Clone(msg).(*QBFTMsg) or the generic proto.CloneOf(msg)
+	want := an.H05T("assert", "*"+c05PB+".QBFTMsg", an.H05CallT(c05Clone, msgT))
+	arg := en.Term(hp.Call.Args[0], hf)
+	if an.H05Same(arg, an.H05CallT(c05Clone+"Of", msgT)) {
+		want = arg
 	}
-	hp = hps[0]
-	msgP := fn.Params[0]
-	arg := an.Unwrap(hp.Call.Args[0])
-	var ta *ssa.TypeAssert
-	switch x := arg.(type) {
-	case *ssa.Extract:
-		if x.Index == 0 {
-			ta, _ = x.Tuple.(*ssa.TypeAssert)
-		}
-	case *ssa.TypeAssert:
-		ta = x
+	switch {
+	case an.H05Same(arg, want):
+		c.Good(short+" hashes proto.Clone(msg)", hp.Pos(), "")
+	case arg.Untraced():
+		c.Unsure(short+" hashes proto.Clone(msg)", hp.Pos(), "the value given to hashProto cannot be traced to its origin")
+		return hp, hf, nil
+	default:
+		c.Bad(short+" hashes proto.Clone(msg)", hp.Pos(), "the value given to hashProto is not the proto.Clone of the whole message parameter")
+		return hp, hf, nil
 	}
-	isClone := false
-	if ta != nil {
-		if cl, ok := ta.X.(*ssa.Call); ok && an.Static(c05Clone)(&cl.Call) && an.Unwrap(cl.Call.Args[0]) == ssa.Value(msgP) {
-			isClone = true
-		}
+	// the life of the object hashed: from its creation (in the hashing function or in a helper that
+	// returns it) up to the hashProto call
+	type stage struct {
+		obj   ssa.Value
+		until ssa.Instruction
 	}
-	c.Check(short+" hashes proto.Clone(msg)", hp.Pos(), isClone, "the value given to hashProto is not the proto.Clone of the whole message parameter")
-	if !isClone {
-		return hp, nil
-	}
-	clone = arg
-	cleared := false
-	bad, unsure := "", ""
-	var visit func(v ssa.Value)
-	visit = func(v ssa.Value) {
-		for _, ref := range *v.Referrers() {
-			if ref == ssa.Instruction(hp) {
+	var stages []stage
+	{
+		var origin *an.H05Origin
+		for _, o := range en.Origins(hp.Call.Args[0], hf) {
+			o := o
+			if o.Zero {
 				continue
 			}
-			switch r := ref.(type) {
-			case *ssa.FieldAddr:
-				key := an.FieldKey(r.X.Type(), r.Field)
-				for _, r2 := range *r.Referrers() {
-					switch st := r2.(type) {
-					case *ssa.Store:
-						if st.Addr != ssa.Value(r) || !an.C05MayPrecede(st, hp) {
-							continue
-						}
-						if key == c05PB+".QBFTMsg.Signature" && an.IsNilConst(st.Val) {
-							if an.Dominates(st, hp) {
-								cleared = true
+			if origin != nil {
+				c.Unsure(short+" only Signature cleared before hashing", hp.Pos(), "the value hashed has more than one origin")
+				return hp, hf, want
+			}
+			origin = &o
+		}
+		local := en.Resolve(hp.Call.Args[0])
+		switch {
+		case origin == nil:
+			c.Unsure(short+" only Signature cleared before hashing", hp.Pos(), "the origin of the value hashed was not found")
+			return hp, hf, want
+		case origin.Frame == hf:
+			stages = []stage{{origin.Val, hp}}
+		case origin.Frame.Parent == hf && origin.Site != nil && origin.Site.Parent() == origin.Frame.Fn:
+			stages = []stage{{origin.Val, origin.Site}, {local, hp}}
+		default:
+			c.Unsure(short+" only Signature cleared before hashing", hp.Pos(), "the clone travels through more than one helper before it is hashed")
+			return hp, hf, want
+		}
+	}
+	cleared := false
+	bad, unsure := "", ""
+	for _, sg := range stages {
+		until := sg.until
+		var visit func(v ssa.Value)
+		seen := map[ssa.Value]bool{}
+		visit = func(v ssa.Value) {
+			if seen[v] || v.Referrers() == nil {
+				return
+			}
+			seen[v] = true
+			for _, ref := range *v.Referrers() {
+				if ref == until {
+					continue
+				}
+				switch r := ref.(type) {
+				case *ssa.FieldAddr:
+					key := an.FieldKey(r.X.Type(), r.Field)
+					for _, r2 := range *r.Referrers() {
+						switch st := r2.(type) {
+						case *ssa.Store:
+							if st.Addr != ssa.Value(r) || !an.C05MayPrecede(st, until) {
+								continue
 							}
-							continue
-						}
-						bad = "field " + key + " of the clone is overwritten before hashing: the signature no longer covers it"
-					case *ssa.UnOp:
-					default:
-						if in, ok := r2.(ssa.Instruction); ok && an.C05MayPrecede(in, hp) {
-							unsure = "address of " + key + " of the clone escapes before hashing"
+							if key == c05PB+".QBFTMsg.Signature" && an.IsNilConst(st.Val) {
+								if an.Dominates(st, until) {
+									cleared = true
+								}
+								continue
+							}
+							bad = "field " + key + " of the clone is overwritten before hashing: the signature no longer covers it"
+						case *ssa.UnOp, *ssa.DebugRef:
+						default:
+							if in, ok := r2.(ssa.Instruction); ok && an.C05MayPrecede(in, until) {
+								unsure = "address of " + key + " of the clone escapes before hashing"
+							}
 						}
 					}
-				}
-			case *ssa.MakeInterface:
-				visit(r)
-			case ssa.CallInstruction:
-				if !an.C05MayPrecede(r, hp) {
-					continue
-				}
-				if callee := r.Common().StaticCallee(); callee != nil && strings.HasPrefix(an.FuncName(callee), c05PB+".QBFTMsg.Get") {
-					continue
-				}
-				unsure = "the clone is passed to " + an.CalleeName(r.Common()) + " before hashing"
-			case *ssa.Store:
-				if an.C05MayPrecede(r, hp) {
-					unsure = "the clone is stored before hashing"
+				case *ssa.MakeInterface:
+					visit(r)
+				case *ssa.ChangeType:
+					visit(r)
+				case *ssa.Phi:
+					visit(r)
+				case *ssa.Extract:
+					visit(r)
+				case *ssa.Store:
+					// kept in a local: follow the loads of that local
+					if al, ok := r.Addr.(*ssa.Alloc); ok && r.Val == v {
+						for _, r2 := range *al.Referrers() {
+							if ld, ok := r2.(*ssa.UnOp); ok && ld.Op == token.MUL && en.Resolve(ld) == en.Resolve(v) {
+								visit(ld)
+							}
+						}
+						continue
+					}
+					if an.C05MayPrecede(r, until) {
+						unsure = "the clone is stored before hashing"
+					}
+				case *ssa.Return, *ssa.DebugRef:
+				case ssa.CallInstruction:
+					if !an.C05MayPrecede(r, until) {
+						continue
+					}
+					if callee := r.Common().StaticCallee(); callee != nil && strings.HasPrefix(an.FuncName(callee), c05PB+".QBFTMsg.Get") {
+						continue
+					}
+					unsure = "the clone is passed to " + an.CalleeName(r.Common()) + " before hashing"
 				}
 			}
 		}
+		visit(sg.obj)
 	}
-	visit(clone)
 	switch {
 	case bad != "":
 		c.Bad(short+" only Signature cleared before hashing", hp.Pos(), bad)
@@ -713,45 +673,108 @@ func c05SignedClone(e *c05env, fn *ssa.Function, short string) (hp *ssa.Call, cl
 	default:
 		c.Check(short+" only Signature cleared before hashing", hp.Pos(), cleared, "clone.Signature = nil does not precede hashProto on every path")
 	}
-	return hp, clone
+	return hp, hf, want
+}
+
+// c05DigestOf: the term is hash[:] (or hash) of the [32]byte produced by hashProto(clone).
+func c05DigestOf(t, clone *an.H05Term) bool {
+	if clone == nil {
+		return false
+	}
+	h := an.H05ExtractT(0, an.H05CallT(c05Q+".hashProto", clone))
+	return an.H05Same(t, h) || an.H05Same(t, an.H05T("slice", "", h))
 }
 
 func c05A2(e *c05env) {
 	c := e.c
+	en := e.engine()
 	// --- verifyMsgSig
 	{
 		fn := c.Fn(c05Q + ".verifyMsgSig")
-		hp, _ := c05SignedClone(e, fn, "verifyMsgSig")
-		rec := c.OneCall(fn, an.Static("app/k1util.Recover"), "k1util.Recover", false).(*ssa.Call)
-		ok, why := an.Guarded(hp, rec, an.DefaultGuard)
-		if ok && !c05HashOf(rec.Call.Args[0], hp) {
-			ok, why = false, "the digest given to k1util.Recover is not the hashProto result"
+		root := en.Root(fn)
+		msgT, pkT := en.Term(fn.Params[0], root), en.Term(fn.Params[1], root)
+		_, _, clone := c05SignedClone(e, root, "verifyMsgSig")
+		rec, rf := c05One(c, en, root, "app/k1util.Recover", "verifyMsgSig")
+		qHash := c05CallQ(c05Q+".hashProto", an.H05ErrNil, "hashProto(clone) does not precede k1util.Recover", clone)
+		if clone == nil {
+			c.Bad("verifyMsgSig Recover(hash)", rec.Pos(), "the digest given to k1util.Recover is not the hash of the clone of the message")
+		} else {
+			v := en.Established(qHash, rec, rf, nil, true)
+			if v.Yes && !c05DigestOf(en.Term(rec.Call.Args[0], rf), clone) {
+				v = an.H05Verdict{Why: "the digest given to k1util.Recover is not the hashProto result", Unsure: en.Term(rec.Call.Args[0], rf).Untraced()}
+			}
+			c05Report(c, "verifyMsgSig Recover(hash)", rec.Pos(), v, "")
 		}
-		c.Check("verifyMsgSig Recover(hash)", rec.Pos(), ok, why)
-		b, isSig := e.read(rec.Call.Args[1], "QBFTMsg.Signature")
-		c.Check("verifyMsgSig Recover(msg signature)", rec.Pos(), isSig && b == ssa.Value(fn.Params[0]), "the signature given to k1util.Recover is not the message's own Signature field")
+		sigT := en.Term(rec.Call.Args[1], rf)
+		switch {
+		case an.H05Same(sigT, an.H05Field(c05PB+".QBFTMsg.Signature", msgT)):
+			c.Good("verifyMsgSig Recover(msg signature)", rec.Pos(), "")
+		case sigT.Untraced():
+			c.Unsure("verifyMsgSig Recover(msg signature)", rec.Pos(), "the signature given to k1util.Recover cannot be traced to its origin")
+		default:
+			c.Bad("verifyMsgSig Recover(msg signature)", rec.Pos(), "the signature given to k1util.Recover is not the message's own Signature field")
+		}
+		qRec := &c05callQ{name: "k1util.Recover", spec: an.H05ErrNil, missing: "k1util.Recover does not precede the verdict",
+			args: []*an.H05Term{nil, nil}, callee: func(en *an.H05, g *ssa.Call, f *an.H05Frame) bool { return g == rec }}
+		isRec := func(x *an.H05Term) bool { return x.Is("extract", "0") && x.Val == ssa.Value(rec) }
+		isEqualT := func(t *an.H05Term) (bool, bool) { // (is IsEqual, on the right operands)
+			if !t.Is("call") || !strings.HasSuffix(t.Name, ".PublicKey.IsEqual") || len(t.Args) != 2 {
+				return false, false
+			}
+			return true, (isRec(t.Args[0]) && an.H05Same(t.Args[1], pkT)) || (isRec(t.Args[1]) && an.H05Same(t.Args[0], pkT))
+		}
+		qEqual := &c05callQ{name: "IsEqual", spec: an.H05Spec{BoolIdx: 0, BoolWant: true}, missing: "a result other than `recovered.IsEqual(pubkey)` is returned as the verdict",
+			args: []*an.H05Term{nil, nil}, callee: func(en *an.H05, g *ssa.Call, f *an.H05Frame) bool {
+				_, ok := isEqualT(en.Term(g, f))
+				return ok
+			}}
 		n := 0
 		for _, r := range an.Returns(fn) {
-			if len(r.Results) != 2 {
+			if len(r.Results) != 2 || r.Block().Comment == "recover" {
 				continue
 			}
-			res := r.Results[0]
-			if k, isC := res.(*ssa.Const); isC && k.Value != nil && !constant.BoolVal(k.Value) {
+			var verdicts []an.H05Verdict
+			for _, o := range en.Origins(r.Results[0], root) {
+				if k, isC := o.Val.(*ssa.Const); o.Zero || (isC && k.Value != nil && k.Value.Kind() == constant.Bool && !constant.BoolVal(k.Value)) {
+					continue // "not signed by pubkey" needs no justification
+				}
+				// where this verdict is chosen
+				site, acc, sf := ssa.Instruction(r), en.AcceptReturn(r, an.H05ErrNil), root
+				if o.Site != nil && o.Frame == root && o.Site.Parent() == fn {
+					site, acc = o.Site, nil
+				} else if o.Frame != root {
+					verdicts = append(verdicts, an.H05Verdict{Unsure: true, Why: "the verdict is computed by a helper in a way the checker cannot follow"})
+					continue
+				}
+				v := an.H05Verdict{Why: "a result other than `recovered.IsEqual(pubkey)` is returned as the verdict"}
+				t := en.Term(o.Val, o.Frame)
+				if k, isC := o.Val.(*ssa.Const); isC && k.Value != nil && k.Value.Kind() == constant.Bool {
+					// a literal `true`: only where IsEqual was seen to hold
+					if v = en.Established(qEqual, site, sf, acc, false); v.Yes {
+						v = en.Established(qRec, site, sf, acc, false)
+					}
+				} else if is, right := isEqualT(t); is {
+					if right {
+						v = en.Established(qRec, site, sf, acc, false)
+					} else {
+						v.Why = "IsEqual does not compare the recovered key with the pubkey parameter"
+					}
+				} else if t.Is("opaque") {
+					v = an.H05Verdict{Unsure: true, Why: "the verdict returned cannot be traced to its origin"}
+				}
+				verdicts = append(verdicts, v)
+			}
+			if len(verdicts) == 0 {
 				continue
 			}
 			n++
-			good, w := false, "a result other than `recovered.IsEqual(pubkey)` is returned as the verdict"
-			if call, isCall := res.(*ssa.Call); isCall && !call.Call.IsInvoke() && call.Call.StaticCallee() != nil &&
-				call.Call.StaticCallee().Name() == "IsEqual" && len(call.Call.Args) == 2 {
-				a0, a1 := call.Call.Args[0], call.Call.Args[1]
-				pk := ssa.Value(fn.Params[1])
-				if (c05IsExtractOf(a0, rec, 0) && a1 == pk) || (c05IsExtractOf(a1, rec, 0) && a0 == pk) {
-					good, w = an.Guarded(rec, r, an.DefaultGuard)
-				} else {
-					w = "IsEqual does not compare the recovered key with the pubkey parameter"
+			worst := verdicts[0]
+			for _, v := range verdicts[1:] {
+				if c05Rank(v) < c05Rank(worst) {
+					worst = v
 				}
 			}
-			c.Check("verifyMsgSig verdict is recovered.IsEqual(pubkey)", posOf(r), good, w)
+			c05Report(c, "verifyMsgSig verdict is recovered.IsEqual(pubkey)", posOf(r), worst, "")
 		}
 		if n == 0 {
 			c.Bad("verifyMsgSig verdict is recovered.IsEqual(pubkey)", fn.Pos(), "verifyMsgSig never returns a computed verdict")
@@ -760,38 +783,111 @@ func c05A2(e *c05env) {
 	// --- signMsg
 	{
 		fn := c.Fn(c05Q + ".signMsg")
-		hp, clone := c05SignedClone(e, fn, "signMsg")
-		sg := c.OneCall(fn, an.Static("app/k1util.Sign"), "k1util.Sign", false).(*ssa.Call)
-		ok, why := an.Guarded(hp, sg, an.DefaultGuard)
-		if ok && !c05HashOf(sg.Call.Args[1], hp) {
-			ok, why = false, "the digest given to k1util.Sign is not the hashProto result"
+		root := en.Root(fn)
+		hp, hpf, clone := c05SignedClone(e, root, "signMsg")
+		sg, sf := c05One(c, en, root, "app/k1util.Sign", "signMsg")
+		if clone == nil {
+			c.Bad("signMsg Sign(hash)", sg.Pos(), "the digest given to k1util.Sign is not the hash of the clone of the message")
+		} else {
+			qHash := c05CallQ(c05Q+".hashProto", an.H05ErrNil, "hashProto(clone) does not precede k1util.Sign", clone)
+			v := en.Established(qHash, sg, sf, nil, true)
+			if v.Yes && !c05DigestOf(en.Term(sg.Call.Args[1], sf), clone) {
+				v = an.H05Verdict{Why: "the digest given to k1util.Sign is not the hashProto result", Unsure: en.Term(sg.Call.Args[1], sf).Untraced()}
+			}
+			c05Report(c, "signMsg Sign(hash)", sg.Pos(), v, "")
 		}
-		c.Check("signMsg Sign(hash)", sg.Pos(), ok, why)
-		for _, r := range an.Returns(fn) {
-			if len(r.Results) != 2 || !c05IsNilErr(r.Results[1]) {
+		qSign := &c05callQ{name: "k1util.Sign", spec: an.H05ErrNil, missing: "k1util.Sign does not precede the successful return",
+			args: []*an.H05Term{nil, nil}, callee: func(en *an.H05, g *ssa.Call, f *an.H05Frame) bool { return g == sg }}
+		// the stores of the signature into the clone
+		var sigStores []c05site
+		en.Walk(root, func(in ssa.Instruction, f *an.H05Frame) {
+			st, ok := in.(*ssa.Store)
+			if !ok {
+				return
+			}
+			fa, ok := st.Addr.(*ssa.FieldAddr)
+			if !ok || an.FieldKey(fa.X.Type(), fa.Field) != c05PB+".QBFTMsg.Signature" || clone == nil || !an.H05Same(en.Term(fa.X, f), clone) {
+				return
+			}
+			if t := en.Term(st.Val, f); t.Is("extract", "0") && t.Val == ssa.Value(sg) {
+				sigStores = append(sigStores, c05site{st, f})
+			}
+		})
+		// after hashing, the only change to the clone is the signature produced by k1util.Sign
+		// beforeHash: the instruction (in frame f) can only execute before the hashProto call
+		beforeHash := func(in ssa.Instruction, f *an.H05Frame) bool {
+			// bring both to a common frame: climb from f to an ancestor-or-self of hpf, or the other way round
+			at := func(x ssa.Instruction, from, to *an.H05Frame) ssa.Instruction {
+				for g := from; g != nil; g = g.Parent {
+					if g == to {
+						return x
+					}
+					if g.Call == nil {
+						return nil
+					}
+					x = g.Call.(ssa.Instruction)
+				}
+				return nil
+			}
+			if x := at(in, f, hpf); x != nil {
+				return an.C05MayPrecede(x, hp) && !an.C05MayPrecede(hp, x)
+			}
+			if h := at(hp, hpf, f); h != nil {
+				return an.C05MayPrecede(in, h) && !an.C05MayPrecede(h, in)
+			}
+			return false
+		}
+		tampered := ""
+		en.Walk(root, func(in ssa.Instruction, f *an.H05Frame) {
+			st, ok := in.(*ssa.Store)
+			if !ok || clone == nil {
+				return
+			}
+			fa, ok := st.Addr.(*ssa.FieldAddr)
+			if !ok || !an.H05Same(en.Term(fa.X, f), clone) || beforeHash(st, f) {
+				return // stores before hashing are judged by "only Signature cleared before hashing"
+			}
+			key := an.FieldKey(fa.X.Type(), fa.Field)
+			if key != c05PB+".QBFTMsg.Signature" {
+				tampered = "field " + key + " of the clone is modified after hashing: the signature does not cover the message returned"
+			} else if t := en.Term(st.Val, f); !(t.Is("extract", "0") && t.Val == ssa.Value(sg)) {
+				tampered = "the clone's Signature is overwritten with something other than the k1util.Sign result"
+			}
+		})
+		for _, r := range en.SuccessReturns(fn, an.H05ErrNil) {
+			if len(r.Results) != 2 {
 				continue
 			}
-			good, w := false, "signMsg does not return the clone it hashed"
-			if clone != nil && an.Unwrap(r.Results[0]) == clone {
-				w = "the clone's Signature is not set from k1util.Sign before the successful return"
-				for _, in := range an.Instrs(fn, false) {
-					st, isSt := in.(*ssa.Store)
-					if !isSt || !c05IsExtractOf(st.Val, sg, 0) || !an.Dominates(st, r) {
+			v := an.H05Verdict{Why: "signMsg does not return the clone it hashed"}
+			t := en.Term(r.Results[0], root)
+			switch {
+			case clone != nil && an.H05Same(t, clone) && tampered != "":
+				v.Why = tampered
+			case clone != nil && an.H05Same(t, clone):
+				v.Why = "the clone's Signature is not set from k1util.Sign before the successful return"
+				for _, s := range sigStores {
+					if s.f != root {
+						v = an.H05Verdict{Unsure: true, Why: "the signature is stored into the clone by a helper"}
 						continue
 					}
-					if fa, isFA := st.Addr.(*ssa.FieldAddr); isFA && an.Unwrap(fa.X) == clone && an.FieldKey(fa.X.Type(), fa.Field) == c05PB+".QBFTMsg.Signature" {
-						good, w = an.Guarded(sg, r, an.DefaultGuard)
+					if an.Dominates(s.in, r) {
+						v = en.Established(qSign, r, root, en.AcceptReturn(r, an.H05ErrNil), false)
+						break
 					}
 				}
+			case t.Untraced():
+				v = an.H05Verdict{Unsure: true, Why: "the message returned cannot be traced to its origin"}
 			}
-			c.Check("signMsg returns the hashed clone with its signature", posOf(r), good, w)
+			c05Report(c, "signMsg returns the hashed clone with its signature", posOf(r), v, "")
 		}
 	}
 	// --- hashProto
 	{
 		fn := c.Fn(c05Q + ".hashProto")
-		ms := c.OneCall(fn, an.Static(c05Marshal), "proto.MarshalOptions.Marshal", false).(*ssa.Call)
-		c.Check("hashProto marshals its whole argument", ms.Pos(), len(ms.Call.Args) == 2 && an.Unwrap(ms.Call.Args[1]) == ssa.Value(fn.Params[0]),
+		root := en.Root(fn)
+		argT := en.Term(fn.Params[0], root)
+		ms, mf := c05One(c, en, root, c05Marshal, "hashProto")
+		c.Check("hashProto marshals its whole argument", ms.Pos(), len(ms.Call.Args) == 2 && an.H05Same(en.Term(ms.Call.Args[1], mf), argT),
 			"the value marshalled is not hashProto's argument")
 		det, why := false, "MarshalOptions receiver is not a local literal"
 		if ld, ok := ms.Call.Args[0].(*ssa.UnOp); ok && ld.Op == token.MUL {
@@ -817,27 +913,43 @@ func c05A2(e *c05env) {
 			}
 		}
 		c.Check("hashProto Deterministic marshalling", ms.Pos(), det, why)
-		put := c.OneCall(fn, an.Static(c05Hasher+".PutBytes"), "Hasher.PutBytes", false).(*ssa.Call)
-		ok, w := an.Guarded(ms, put, an.DefaultGuard)
-		if ok && !c05IsExtractOf(put.Call.Args[1], ms, 0) {
-			ok, w = false, "the bytes hashed are not the marshalled message"
+		put, pf := c05One(c, en, root, c05Hasher+".PutBytes", "hashProto")
+		qMarshal := &c05callQ{name: "Marshal", spec: an.H05ErrNil, missing: "the marshalling does not precede PutBytes",
+			args: []*an.H05Term{nil, nil}, callee: func(en *an.H05, g *ssa.Call, f *an.H05Frame) bool { return g == ms }}
+		pv := en.Established(qMarshal, put, pf, nil, true)
+		if bt := en.Term(put.Call.Args[1], pf); pv.Yes && !(bt.Is("extract", "0") && bt.Val == ssa.Value(ms)) {
+			pv = an.H05Verdict{Why: "the bytes hashed are not the marshalled message", Unsure: bt.Untraced()}
 		}
-		c.Check("hashProto hashes the marshalled bytes", put.Pos(), ok, w)
-		root := c.OneCall(fn, an.Static(c05Hasher+".HashRoot"), "Hasher.HashRoot", false).(*ssa.Call)
+		c05Report(c, "hashProto hashes the marshalled bytes", put.Pos(), pv, "")
+		rootCall, rtf := c05One(c, en, root, c05Hasher+".HashRoot", "hashProto")
+		qRoot := &c05callQ{name: "HashRoot", spec: an.H05ErrNil, missing: "HashRoot does not precede the successful return",
+			args: []*an.H05Term{nil}, callee: func(en *an.H05, g *ssa.Call, f *an.H05Frame) bool { return g == rootCall }}
 		n := 0
-		for _, r := range an.Returns(fn) {
-			if len(r.Results) != 2 || r.Block().Comment == "recover" {
-				continue
-			}
-			if !c05IsNilErr(c05Spilled(r.Results[1], r)) {
+		for _, r := range en.SuccessReturns(fn, an.H05ErrNil) {
+			if len(r.Results) != 2 {
 				continue
 			}
 			n++
-			good, w := false, "the hash returned on success is not the HashRoot of the hasher fed with the marshalled bytes"
-			if c05IsExtractOf(c05Spilled(r.Results[0], r), root, 0) && root.Call.Args[0] == put.Call.Args[0] && an.Dominates(put, root) {
-				good, w = an.Guarded(root, r, an.DefaultGuard)
+			v := an.H05Verdict{Why: "the hash returned on success is not the HashRoot of the hasher fed with the marshalled bytes"}
+			t := en.Term(r.Results[0], root)
+			// the very same hasher object (not merely an equal expression: the pool hands out distinct objects)
+			sameHasher := pf == rtf && en.Resolve(rootCall.Call.Args[0]) == en.Resolve(put.Call.Args[0])
+			switch {
+			case t.Is("extract", "0") && t.Val == ssa.Value(rootCall) && pf != rtf:
+				v = an.H05Verdict{Unsure: true, Why: "PutBytes and HashRoot are in different functions; the hasher cannot be identified"}
+			case t.Is("extract", "0") && t.Val == ssa.Value(rootCall) && sameHasher:
+				switch {
+				case pf != rtf || put.Parent() != rootCall.Parent():
+					v = an.H05Verdict{Unsure: true, Why: "PutBytes and HashRoot are in different functions; their order cannot be decided"}
+				case !an.Dominates(put, rootCall):
+					v.Why = "HashRoot is not preceded by PutBytes of the marshalled bytes"
+				default:
+					v = en.Established(qRoot, r, root, en.AcceptReturn(r, an.H05ErrNil), false)
+				}
+			case t.Untraced():
+				v = an.H05Verdict{Unsure: true, Why: "the hash returned cannot be traced to its origin"}
 			}
-			c.Check("hashProto returns HashRoot of the marshalled bytes", posOf(r), good, w)
+			c05Report(c, "hashProto returns HashRoot of the marshalled bytes", posOf(r), v, "")
 		}
 		if n == 0 {
 			c.Unsure("hashProto returns HashRoot of the marshalled bytes", fn.Pos(), "no successful return recognised")
@@ -866,8 +978,50 @@ func c05ExportedFields(c *rt.Ctx, typ string) []string {
 	return out
 }
 
+// c05consumerQ: some call with an error result that takes the term as an argument succeeded.
+func c05ConsumerQ(t *an.H05Term) *c05anyCallQ { return &c05anyCallQ{arg: t} }
+
+type c05anyCallQ struct{ arg *an.H05Term }
+
+func (q *c05anyCallQ) ID() string { return "c05consumer:" + q.arg.Key() }
+
+func (q *c05anyCallQ) Direct(en *an.H05, site ssa.Instruction, f *an.H05Frame, acc an.H05Accept) an.H05Verdict {
+	best := an.H05Verdict{Why: "wire field is never handed to a check whose failure rejects the message: a peer-controlled field without any check"}
+	for _, b := range f.Fn.Blocks {
+		for _, in := range b.Instrs {
+			g, ok := in.(*ssa.Call)
+			if !ok || g.Call.StaticCallee() == nil {
+				continue
+			}
+			res := g.Call.Signature().Results()
+			hasErr := false
+			for i := 0; i < res.Len(); i++ {
+				hasErr = hasErr || an.IsErrorType(res.At(i).Type())
+			}
+			takes := false
+			for _, a := range g.Call.Args {
+				if an.H05Same(en.Term(a, f), q.arg) {
+					takes = true
+				}
+			}
+			if !hasErr || !takes {
+				continue
+			}
+			v := en.Checked(g, an.H05ErrNil, site, acc)
+			if v.Yes {
+				v.WitFrame = f
+				return v
+			}
+			v.Why = "wire field is read in handle but no read feeds a checked guard that dominates the send"
+			best = c05Better(best, v)
+		}
+	}
+	return best
+}
+
 func c05A3(e *c05env) {
 	c := e.c
+	en := e.engine()
 	// (a) every exported field of the wire envelope is consumed by a checked guard in handle
 	h := c05ResolveHandle(e)
 	fn := h.fn
@@ -875,792 +1029,36 @@ func c05A3(e *c05env) {
 	if len(fields) < 3 {
 		c.Bail("QBFTConsensusMsg has %d exported fields, expected at least Msg, Justification, Values", len(fields))
 	}
-	sink := h.sinks[0].in
+	sk := h.sinks[0]
 	for _, f := range fields {
-		if c.FnOpt(c05PB+".QBFTConsensusMsg.Get"+f) == nil {
-			c.Bad("QBFTConsensusMsg."+f+" consumed by a checked guard in handle", fn.Pos(), "wire field has no accessor and no consumer in handle")
-			continue
+		ft := an.H05Field(c05PB+".QBFTConsensusMsg."+f, h.pb)
+		v := h.est(en, c05ConsumerQ(ft), sk.in, sk.f)
+		if !v.Yes {
+			fa := &an.H05ForallQ{Name: "consumer", Coll: ft, Missing: v.Why,
+				Inner: func(elem *an.H05Term) an.H05Query { return c05ConsumerQ(elem) }}
+			v = c05Better(v, h.est(en, fa, sk.in, sk.f))
 		}
-		good, why := false, "wire field is never read from the request in handle: a peer-controlled field without any check"
-		for _, in := range an.Instrs(fn, false) {
-			v, isVal := in.(ssa.Value)
-			if !isVal {
-				continue
-			}
-			if b, ok := e.read(v, "QBFTConsensusMsg."+f); !ok || b != h.pb {
-				continue
-			}
-			if why[0] == 'w' {
-				why = "wire field is read in handle but no read feeds a checked guard that dominates the send"
-			}
-			// direct argument of a checked guard call
-			for _, ref := range *v.Referrers() {
-				g, isCall := ref.(*ssa.Call)
-				if !isCall || g.Call.StaticCallee() == nil || sink.Parent() != fn {
-					continue
-				}
-				hasErr := false
-				res := g.Call.Signature().Results()
-				for i := 0; i < res.Len(); i++ {
-					hasErr = hasErr || an.IsErrorType(res.At(i).Type())
-				}
-				if !hasErr {
-					continue
-				}
-				if ok, _ := an.Guarded(g, sink, an.DefaultGuard); ok {
-					good = true
-				}
-			}
-			// collection of a forall-checked loop
-			for _, l := range an.Loops(fn) {
-				if l.RangeColl() == nil || !an.Equiv(l.RangeColl(), v) || sink.Parent() != fn {
-					continue
-				}
-				for b := range l.Body {
-					for _, in2 := range b.Instrs {
-						g, isCall := in2.(*ssa.Call)
-						if !isCall || g.Call.StaticCallee() == nil || len(g.Call.Args) == 0 || !l.ElemOf(g.Call.Args[0]) {
-							continue
-						}
-						errv := ssa.Value(g)
-						if g.Call.Signature().Results().Len() != 1 || !an.IsErrorType(g.Call.Signature().Results().At(0).Type()) {
-							continue
-						}
-						for _, br := range c05ErrFail(fn, errv) {
-							if ok, _ := c05Forall(l, br.If, br.Fail, sink); ok {
-								good = true
-							}
-						}
-					}
-				}
-			}
-		}
-		c.Check("QBFTConsensusMsg."+f+" consumed by a checked guard in handle", fn.Pos(), good, why)
+		c05Report(c, "QBFTConsensusMsg."+f+" consumed by a checked guard in handle", fn.Pos(), v, "")
 	}
-
-	// (b) provenance of every field of the Msg built by newMsg
-	nm := c.Fn(c05Q + ".newMsg")
-	toHash := c.Fn(c05Q + ".toHash32")
-	pbP, justP, valsP := ssa.Value(nm.Params[0]), ssa.Value(nm.Params[1]), ssa.Value(nm.Params[2])
-	var ret *ssa.Return
-	for _, r := range an.Returns(nm) {
-		if len(r.Results) == 2 && c05IsNilErr(r.Results[1]) {
-			if ret != nil {
-				c.Bail("newMsg: more than one successful return")
-			}
-			ret = r
-		}
-	}
-	if ret == nil {
-		c.Bail("newMsg: no successful return")
-	}
-	ld, ok := ret.Results[0].(*ssa.UnOp)
-	var lit *ssa.Alloc
-	if ok && ld.Op == token.MUL {
-		lit, _ = ld.X.(*ssa.Alloc)
-	}
-	if lit == nil {
-		c.Bail("newMsg: successful return is not a Msg literal")
-	}
-	stored, problem := c05LitFields(lit, 0)
-	if problem != "" {
-		c.Bail("newMsg: cannot resolve the fields of the returned Msg: %s", problem)
-	}
-	// hash fields: zero, or toHash32(pbMsg.GetX()) with presence in values checked
-	hashProv := func(v ssa.Value, pbField string) (bool, string) {
-		edges := []ssa.Value{v}
-		var preds []*ssa.BasicBlock
-		if phi, ok := v.(*ssa.Phi); ok {
-			edges = phi.Edges
-			preds = phi.Block().Preds
-		}
-		nonzero := 0
-		for i, ev := range edges {
-			if k, ok := ev.(*ssa.Const); ok && k.Value == nil {
-				continue
-			}
-			nonzero++
-			ex, ok := ev.(*ssa.Extract)
-			if !ok || ex.Index != 0 {
-				return false, "hash is not the result of toHash32"
-			}
-			call, ok := ex.Tuple.(*ssa.Call)
-			if !ok || call.Call.StaticCallee() != toHash {
-				return false, "hash is not the result of toHash32"
-			}
-			if b, ok := e.read(call.Call.Args[0], "QBFTMsg."+pbField); !ok || b != pbP {
-				return false, "hash is not derived from pbMsg." + pbField
-			}
-			// toHash32's ok must hold on this edge and presence in values must be checked
-			okv := c05Extract(call, 1)
-			if okv == nil {
-				return false, "validity result of toHash32 is discarded"
-			}
-			envNot := func(x ssa.Value) an.C05Env {
-				return func(v ssa.Value) (constant.Value, bool) {
-					if v == x {
-						return constant.MakeBool(false), true
-					}
-					return nil, false
-				}
-			}
-			present := false
-			for _, in := range an.Instrs(nm, false) {
-				lk, ok := in.(*ssa.Lookup)
-				if !ok || !lk.CommaOk || lk.X != valsP || lk.Index != ev {
-					continue
-				}
-				found := c05Extract(lk, 1)
-				if found == nil {
-					continue
-				}
-				var from ssa.Instruction = lk
-				if preds != nil && !(lk.Block() == preds[i] || lk.Block().Dominates(preds[i])) {
-					continue
-				}
-				if !an.C05ReachUnder(from, ret, envNot(found)) {
-					present = true
-				}
-			}
-			if !present {
-				return false, "the message is built although values[hash] was not found (or never looked up)"
-			}
-			if preds != nil {
-				// with ok == false the non-zero edge must not be taken: the phi's block is reached from
-				// preds[i] only; require call's ok-false path not to pass preds[i]
-				if an.C05ReachUnder(call, preds[i].Instrs[len(preds[i].Instrs)-1], envNot(okv)) && preds[i] != call.Block() {
-					return false, "hash is used although toHash32 reported it invalid"
-				}
-			}
-		}
-		if nonzero == 0 {
-			return false, "hash field is always zero"
-		}
-		return true, ""
-	}
-	justProv := func(v ssa.Value) (bool, string) {
-		phi, ok := v.(*ssa.Phi)
-		if !ok {
-			return false, "justification list is not accumulated in a loop over the justification parameter"
-		}
-		seenAppend := false
-		for _, ev := range phi.Edges {
-			if k, ok := ev.(*ssa.Const); ok && k.Value == nil {
-				continue
-			}
-			app, ok := c05Builtin(ev, "append")
-			if !ok || app.Call.Args[0] != ssa.Value(phi) {
-				return false, "justification list is not built by appending to itself"
-			}
-			elems := appendedElems(ev)
-			if len(elems) != 1 {
-				return false, "unrecognised append"
-			}
-			ex, ok := an.Unwrap(elems[0]).(*ssa.Extract)
-			var call *ssa.Call
-			if ok && ex.Index == 0 {
-				call, _ = ex.Tuple.(*ssa.Call)
-			}
-			if call == nil || call.Call.StaticCallee() != nm {
-				return false, "an appended justification is not built by newMsg"
-			}
-			l := an.InnermostLoop(nm, call.Block())
-			if l == nil || l.RangeColl() != justP || !l.ElemOf(call.Call.Args[0]) {
-				return false, "justification Msg is not built from the element of the justification parameter"
-			}
-			if call.Call.Args[2] != valsP {
-				return false, "justification Msg is built with a different values map"
-			}
-			if ok, w := an.Guarded(call, app, an.DefaultGuard); !ok {
-				return false, "error of the nested newMsg is not checked before the append: " + w
-			}
-			good := false
-			for _, br := range c05ErrFail(nm, c05Extract(call, 1)) {
-				if ok, _ := c05Forall(l, br.If, br.Fail, ret); ok {
-					good = true
-				}
-			}
-			if !good {
-				return false, "a justification can be skipped (hash presence unchecked) before the Msg is returned"
-			}
-			seenAppend = true
-		}
-		return seenAppend, "nothing is appended to the justification list"
-	}
-	st, ok := c.Pkg(c05Q).Types.Scope().Lookup("Msg").Type().Underlying().(*types.Struct)
-	if !ok {
-		c.Bail("qbft.Msg is not a struct")
-	}
-	for i := 0; i < st.NumFields(); i++ {
-		name := st.Field(i).Name()
-		v := stored[name]
-		key := "newMsg Msg." + name + " provenance"
-		if v == nil {
-			c.Good(key, posOf(ret), "field is left at its zero value: carries nothing from the wire")
-			continue
-		}
-		switch name {
-		case "msg":
-			c.Check(key, posOf(ret), v == pbP, "Msg.msg is not the (verified) message parameter")
-		case "values":
-			c.Check(key, posOf(ret), v == valsP, "Msg.values is not the recomputed-hash map parameter")
-		case "justificationProtos":
-			c.Check(key, posOf(ret), v == justP, "Msg.justificationProtos is not the (verified) justification parameter")
-		case "valueHash":
-			ok, w := hashProv(v, "ValueHash")
-			c.Check(key, posOf(ret), ok, w)
-		case "preparedValueHash":
-			ok, w := hashProv(v, "PreparedValueHash")
-			c.Check(key, posOf(ret), ok, w)
-		case "justification":
-			ok, w := justProv(v)
-			c.Check(key, posOf(ret), ok, w)
-		default:
-			c.Unsure(key, posOf(ret), "new field of qbft.Msg without a provenance rule")
-		}
-	}
-
-	// (c) valuesByHash: key is the recomputed hash of the very value stored under it
-	vbh := c.Fn(c05Q + ".valuesByHash")
-	hashProto := c.Fn(c05Q + ".hashProto")
-	var okRet *ssa.Return
-	for _, r := range an.Returns(vbh) {
-		if len(r.Results) == 2 && c05IsNilErr(r.Results[1]) {
-			if okRet != nil {
-				c.Bail("valuesByHash: more than one successful return")
-			}
-			okRet = r
-		}
-	}
-	if okRet == nil {
-		c.Bail("valuesByHash: no successful return")
-	}
-	resMap := okRet.Results[0]
-	ups := mapUpdates(vbh, func(m ssa.Value) bool { return m == resMap })
-	if len(ups) == 0 {
-		c.Bad("valuesByHash key is hashProto(inner value)", posOf(okRet), "nothing is inserted into the returned map")
-	}
-	for _, up := range ups {
-		good, why := false, "map key is not the hashProto result"
-		if ex, ok := an.Unwrap(up.Key).(*ssa.Extract); ok && ex.Index == 0 {
-			if hc, ok := ex.Tuple.(*ssa.Call); ok && hc.Call.StaticCallee() == hashProto {
-				why = "hashed message is not UnmarshalNew() of the value stored under the key"
-				if ix, ok := an.Unwrap(hc.Call.Args[0]).(*ssa.Extract); ok && ix.Index == 0 {
-					if uc, ok := ix.Tuple.(*ssa.Call); ok && uc.Call.StaticCallee() != nil && uc.Call.StaticCallee().Name() == "UnmarshalNew" &&
-						len(uc.Call.Args) == 1 {
-						l := an.InnermostLoop(vbh, up.Block())
-						switch {
-						case l == nil || l.RangeColl() != ssa.Value(vbh.Params[0]) || !l.ElemOf(up.Value) || !c05SameElem(up.Value, uc.Call.Args[0]):
-							why = "stored value is not the element of the values parameter"
-						default:
-							ok1, w1 := an.Guarded(uc, up, an.DefaultGuard)
-							ok2, w2 := an.Guarded(hc, up, an.DefaultGuard)
-							good, why = ok1 && ok2, "unmarshal: "+w1+"; hash: "+w2
-						}
-					}
-				}
-			}
-		}
-		c.Check("valuesByHash key is hashProto(inner value)", posOf(up), good, why)
-	}
+	c05NewMsgProvenance(e)
+	c05ValuesByHash(e)
 }
 
-// ---------------------------------------------------------------------------------------------
-// A4: verifyMsg accepts only well-formed messages signed by the peer they name as source
-
-func c05A4(e *c05env) {
-	c := e.c
-	fn := c.Fn(c05Q + ".verifyMsg")
-	sig := c.Fn(c05Q + ".verifyMsgSig")
-	msgP, keysP := ssa.Value(fn.Params[0]), ssa.Value(fn.Params[1])
-	var sinks []*ssa.Return
-	for _, r := range an.Returns(fn) {
-		if len(r.Results) == 1 && c05IsNilErr(r.Results[0]) {
-			sinks = append(sinks, r)
-		}
-	}
-	if len(sinks) == 0 {
-		c.Bail("verifyMsg: no `return nil` found")
-	}
-	readOfMsg := func(v ssa.Value, f string) bool {
-		b, ok := e.read(v, "QBFTMsg."+f)
-		return ok && b == msgP
-	}
-	for _, sink := range sinks {
-		// enum validity
-		validGuard := func(construct, method string, isArg func(ssa.Value) bool) {
-			good, why := false, "no "+method+"() test of the message's field"
-			for _, g := range an.Calls(fn, an.Static(method), false) {
-				if len(g.Common().Args) != 1 || !isArg(g.Common().Args[0]) {
-					continue
-				}
-				ok, w := an.Guarded(g, sink, an.BoolGuard(0, true))
-				if ok {
-					good = true
-				} else {
-					why = w
-				}
-			}
-			c.Check(construct, posOf(sink), good, why)
-		}
-		validGuard("verifyMsg type valid→accept", "core/qbft.MsgType.Valid", func(v ssa.Value) bool { return readOfMsg(v, "Type") })
-		validGuard("verifyMsg duty type valid→accept", "core.DutyType.Valid", func(v ssa.Value) bool {
-			b, ok := e.read(v, "Duty.Type")
-			return ok && readOfMsg(b, "Duty")
-		})
-		// integer ranges: accept is unreachable for every bad value
-		rangeGuard := func(construct, field string, bad func(int64) bool) {
-			var reads []ssa.Value
-			for _, in := range an.Instrs(fn, false) {
-				if v, ok := in.(ssa.Value); ok && readOfMsg(v, field) {
-					reads = append(reads, v)
-				}
-			}
-			isRead := func(v ssa.Value) bool {
-				for _, r := range reads {
-					if r == v {
-						return true
-					}
-				}
-				return false
-			}
-			samples := map[int64]bool{0: true, 1: true, -1: true, -1 << 63: true, 1<<63 - 1: true}
-			var first ssa.Instruction
-			for _, b := range fn.Blocks {
-				iff, ok := b.Instrs[len(b.Instrs)-1].(*ssa.If)
-				if !ok {
-					continue
-				}
-				bin, ok := iff.Cond.(*ssa.BinOp)
-				if !ok {
-					continue
-				}
-				for _, pair := range [][2]ssa.Value{{bin.X, bin.Y}, {bin.Y, bin.X}} {
-					if n, ok := an.ConstInt(pair[1]); ok && isRead(pair[0]) {
-						samples[n], samples[n-1], samples[n+1] = true, true, true
-						if in, ok := pair[0].(ssa.Instruction); ok && first == nil && an.Dominates(in, sink) {
-							first = in
-						}
-					}
-				}
-			}
-			if first == nil {
-				c.Bad(construct, posOf(sink), "no comparison of msg."+field+" with a constant dominates the accepting return")
-				return
-			}
-			good, why := true, ""
-			for n := range samples {
-				if !bad(n) {
-					continue
-				}
-				n := n
-				env := func(v ssa.Value) (constant.Value, bool) {
-					if isRead(v) {
-						return constant.MakeInt64(n), true
-					}
-					return nil, false
-				}
-				if an.C05ReachUnder(first, sink, env) {
-					good, why = false, "the accepting return is reachable with an out-of-range "+field
-				}
-			}
-			c.Check(construct, posOf(sink), good, why)
-		}
-		rangeGuard("verifyMsg round>0→accept", "Round", func(n int64) bool { return n <= 0 })
-		rangeGuard("verifyMsg preparedRound>=0→accept", "PreparedRound", func(n int64) bool { return n < 0 })
-
-		// source binding: key looked up by the message's own peer index, signature checked with it
-		var lookup *ssa.Lookup
-		for _, in := range an.Instrs(fn, false) {
-			if lk, ok := in.(*ssa.Lookup); ok && lk.X == keysP && readOfMsg(lk.Index, "PeerIdx") {
-				lookup = lk
-			}
-		}
-		if lookup == nil {
-			c.Bad("verifyMsg key = pubkeys[msg.PeerIdx]", posOf(sink), "the public key is not looked up by the message's own peer index")
-			c.Bad("verifyMsg unknown peer→reject", posOf(sink), "no lookup")
-			c.Bad("verifyMsg verifyMsgSig(msg, key)→accept", posOf(sink), "no lookup")
-			continue
-		}
-		c.Good("verifyMsg key = pubkeys[msg.PeerIdx]", lookup.Pos(), "")
-		known := false
-		if lookup.CommaOk {
-			if okv := c05Extract(lookup, 1); okv != nil {
-				env := func(v ssa.Value) (constant.Value, bool) {
-					if v == okv {
-						return constant.MakeBool(false), true
-					}
-					return nil, false
-				}
-				known = an.Dominates(lookup, sink) && !an.C05ReachUnder(lookup, sink, env)
-			}
-		}
-		c.Check("verifyMsg unknown peer→reject", lookup.Pos(), known, "a peer index without a key in the cluster is not rejected")
-		good, why := false, "no verifyMsgSig(msg, pubkeys[msg.PeerIdx]) call"
-		for _, g := range c05CallsTo(fn, sig) {
-			keyOK := c05IsExtractOf(g.Call.Args[1], lookup, 0) || (!lookup.CommaOk && an.Unwrap(g.Call.Args[1]) == ssa.Value(lookup))
-			if g.Call.Args[0] != msgP || !keyOK {
-				why = "verifyMsgSig is not applied to the message and the key of its own source index"
-				continue
-			}
-			ok, w := an.Guarded(g, sink, an.BoolGuard(0, true))
-			if ok {
-				good = true
-			} else {
-				why = w
-			}
-		}
-		c.Check("verifyMsg verifyMsgSig(msg, key)→accept", posOf(sink), good, why)
-	}
-
-	// Msg.Source() is that same signed field
-	src := c.Fn(c05Q + ".Msg.Source")
-	for _, r := range an.Returns(src) {
-		good := false
-		if len(r.Results) == 1 {
-			if b, ok := e.read(r.Results[0], "QBFTMsg.PeerIdx"); ok {
-				good = isLoadOfValueField(b, c05Q+".Msg.msg") || c05FieldOfParam(b, src, c05Q+".Msg.msg")
-			}
-		}
-		c.Check("Msg.Source returns msg.PeerIdx", posOf(r), good, "Source() is not the PeerIdx of the signed message the key was looked up with")
-	}
-
-	// the key table maps index i to the key of peers[i]
-	nc := c.Fn(c05Q + ".NewConsensus")
-	var keysMap ssa.Value
-	for _, in := range an.Instrs(nc, false) {
-		if st, ok := in.(*ssa.Store); ok {
-			if fa, ok := st.Addr.(*ssa.FieldAddr); ok && an.FieldKey(fa.X.Type(), fa.Field) == c05Q+".Consensus.pubkeys" {
-				keysMap = st.Val
-			}
-		}
-	}
-	if keysMap == nil {
-		c.Bail("NewConsensus: pubkeys field is not initialised")
-	}
-	ups := mapUpdates(nc, func(m ssa.Value) bool { return m == keysMap })
-	if len(ups) == 0 {
-		c.Bad("NewConsensus pubkeys[i] = peers[i].PublicKey()", nc.Pos(), "no key is inserted into the pubkeys table")
-	}
-	var peersP ssa.Value
-	for _, p := range nc.Params {
-		if p.Name() == "peers" {
-			peersP = p
-		}
-	}
-	for _, up := range ups {
-		good, why := false, "key table entry is not peers[i].PublicKey() under index i"
-		l := an.InnermostLoop(nc, up.Block())
-		if l != nil && peersP != nil && l.RangeColl() == peersP {
-			if ex, ok := an.Unwrap(up.Value).(*ssa.Extract); ok && ex.Index == 0 {
-				if pk, ok := ex.Tuple.(*ssa.Call); ok && pk.Call.StaticCallee() != nil && pk.Call.StaticCallee().Name() == "PublicKey" && l.ElemOf(pk.Call.Args[0]) {
-					// index: Convert of the range index == the IndexAddr index of the element
-					idx := an.Unwrap(up.Key)
-					same := false
-					for b := range l.Body {
-						for _, in := range b.Instrs {
-							if ia, ok := in.(*ssa.IndexAddr); ok && ia.X == peersP && ia.Index == idx {
-								same = true
-							}
-						}
-					}
-					if same {
-						good, why = an.Guarded(pk, up, an.DefaultGuard)
-					} else {
-						why = "table index is not the position of the peer in the peers list"
-					}
-				}
-			}
-		}
-		c.Check("NewConsensus pubkeys[i] = peers[i].PublicKey()", posOf(up), good, why)
-	}
+// c05field is one assignment to a field of a struct under construction.
+type c05fieldStore struct {
+	val ssa.Value
+	st  *ssa.Store
 }
 
-// c05FieldOfParam: v is field `key` of the (value) receiver parameter of fn.
-func c05FieldOfParam(v ssa.Value, fn *ssa.Function, key string) bool {
-	switch x := v.(type) {
-	case *ssa.Field:
-		return an.FieldKey(x.X.Type(), x.Field) == key && rootedAt(x.X, fn.Params[0])
-	case *ssa.UnOp:
-		if fa, ok := x.X.(*ssa.FieldAddr); ok && x.Op == token.MUL {
-			return an.FieldKey(fa.X.Type(), fa.Field) == key && rootedAt(fa.X, fn.Params[0])
-		}
-	}
-	return false
-}
-
-// ---------------------------------------------------------------------------------------------
-// A5: the handler is registered with a read limit below the p2p default
-
-func c05A5(e *c05env) {
-	c := e.c
-	reg := c.Fn("p2p.RegisterHandler")
-	wrl := c.Fn("p2p.WithReadLimit")
-	handle := c.Fn(c05Q + ".Consensus.handle")
-	def := constOf(c, "p2p", "maxMsgSize")
-	n := 0
-	for _, fn := range an.PkgFuncs(c.SSAPkg(c05Q)) {
-		for _, call := range c05CallsTo(fn, reg) {
-			n++
-			args := call.Call.Args
-			if len(args) != 6 {
-				c.Bail("p2p.RegisterHandler: unexpected signature")
-			}
-			where := an.FuncName(fn)
-			isHandle := false
-			if mc, ok := an.Unwrap(args[4]).(*ssa.MakeClosure); ok {
-				if f, ok := mc.Fn.(*ssa.Function); ok && (an.FuncName(f) == an.FuncName(handle) || strings.HasPrefix(f.Name(), "handle$bound")) {
-					isHandle = true
-				}
-			}
-			c.Check(where+" registers Consensus.handle", call.Pos(), isHandle, "the registered stream handler is not Consensus.handle (the function whose checks A1 decides)")
-			elems, ok := c05VariadicElems(args[5])
-			if !ok {
-				c.Unsure(where+" RegisterHandler WithReadLimit", call.Pos(), "options are not a literal argument list")
-				continue
-			}
-			good, why := false, "handler registered without p2p.WithReadLimit: messages up to the p2p default size are decoded"
-			for _, el := range elems {
-				oc, ok := an.Unwrap(el).(*ssa.Call)
-				if !ok || oc.Call.StaticCallee() != wrl {
-					continue
-				}
-				lim, ok := an.ConstInt(oc.Call.Args[0])
-				switch {
-				case !ok:
-					why = "read limit is not a constant"
-				case lim <= 0 || lim >= def:
-					why = "read limit is not below the p2p default frame size"
-				default:
-					good = true
-				}
-			}
-			c.Check(where+" RegisterHandler WithReadLimit", call.Pos(), good, why)
-		}
-	}
-	if n == 0 {
-		c.Bail("no p2p.RegisterHandler call in %s", c05Q)
-	}
-	// WithReadLimit really installs a reader bounded by its argument for every protocol
-	if len(wrl.AnonFuncs) != 1 || len(wrl.AnonFuncs[0].AnonFuncs) != 1 {
-		c.Bail("p2p.WithReadLimit: unexpected closure structure")
-	}
-	opt, rd := wrl.AnonFuncs[0], wrl.AnonFuncs[0].AnonFuncs[0]
-	ndr := c.OneCall(rd, func(cc *ssa.CallCommon) bool {
-		f := cc.StaticCallee()
-		return f != nil && f.Name() == "NewDelimitedReader"
-	}, "pbio.NewDelimitedReader", false)
-	c.Check("p2p.WithReadLimit reader bounded by limit", ndr.Pos(), c05FreeVarIsParam(ndr.Common().Args[1], wrl.Params[0]),
-		"the reader installed by WithReadLimit is not bounded by the limit argument")
-	ups := mapUpdates(opt, isFieldMap("p2p.sendRecvOpts.readersByProtocol"))
-	good := false
-	for _, up := range ups {
-		if mc, ok := an.Unwrap(up.Value).(*ssa.MakeClosure); ok && mc.Fn == ssa.Value(rd) {
-			if l := an.InnermostLoop(opt, up.Block()); l != nil {
-				if k, _, ok := an.FieldOf(l.RangeColl()); ok && k == "p2p.sendRecvOpts.protocols" && l.ElemOf(up.Key) {
-					good = true
-				}
-			}
-		}
-	}
-	c.Check("p2p.WithReadLimit installs the reader for every protocol", opt.Pos(), good, "the bounded reader is not stored in readersByProtocol for each registered protocol")
-}
-
-// c05FreeVarIsParam follows a captured variable through nested closures up to a parameter.
-func c05FreeVarIsParam(v ssa.Value, p *ssa.Parameter) bool {
-	for i := 0; i < 8; i++ {
-		switch x := v.(type) {
-		case *ssa.UnOp:
-			if x.Op != token.MUL {
-				return false
-			}
-			v = x.X
-		case *ssa.FreeVar:
-			fn := x.Parent()
-			idx := -1
-			for j, fv := range fn.FreeVars {
-				if fv == x {
-					idx = j
-				}
-			}
-			if idx < 0 || fn.Parent() == nil {
-				return false
-			}
-			var bind ssa.Value
-			for _, in := range an.Instrs(fn.Parent(), false) {
-				if mc, ok := in.(*ssa.MakeClosure); ok && mc.Fn == ssa.Value(fn) {
-					if bind != nil {
-						return false
-					}
-					bind = mc.Bindings[idx]
-				}
-			}
-			if bind == nil {
-				return false
-			}
-			v = bind
-		case *ssa.Alloc:
-			n := 0
-			var src ssa.Value
-			for _, ref := range *x.Referrers() {
-				if st, ok := ref.(*ssa.Store); ok && st.Addr == ssa.Value(x) {
-					n++
-					src = st.Val
-				}
-			}
-			return n == 1 && src == ssa.Value(p)
-		case *ssa.Parameter:
-			return x == p
-		default:
-			return false
-		}
-	}
-	return false
-}
-
-// ---------------------------------------------------------------------------------------------
-// A6: the duty gater rejects invalid duty types, and it is the gater wired into consensus
-
-func c05A6(e *c05env) {
-	c := e.c
-	ng := c.Fn("core.NewDutyGater")
-	var gater *ssa.Function
-	for _, r := range an.Returns(ng) {
-		if len(r.Results) != 2 || !c05IsNilErr(r.Results[1]) {
-			continue
-		}
-		mc, ok := an.Unwrap(r.Results[0]).(*ssa.MakeClosure)
-		if !ok || gater != nil {
-			c.Bail("NewDutyGater: successful result is not a single function literal")
-		}
-		gater, _ = mc.Fn.(*ssa.Function)
-	}
-	if gater == nil || len(gater.Params) != 1 {
-		c.Bail("NewDutyGater: gater closure not found")
-	}
-	var valid []ssa.CallInstruction
-	for _, g := range an.Calls(gater, an.Static("core.DutyType.Valid"), false) {
-		a := an.Unwrap(g.Common().Args[0])
-		isType := false
-		switch x := a.(type) {
-		case *ssa.Field:
-			isType = an.FieldKey(x.X.Type(), x.Field) == "core.Duty.Type" && rootedAt(x.X, gater.Params[0])
-		case *ssa.UnOp:
-			if fa, ok := x.X.(*ssa.FieldAddr); ok && x.Op == token.MUL {
-				isType = an.FieldKey(fa.X.Type(), fa.Field) == "core.Duty.Type" && rootedAt(fa.X, gater.Params[0])
-			}
-		}
-		if isType {
-			valid = append(valid, g)
-		}
-	}
-	n := 0
-	for _, r := range an.Returns(gater) {
-		if len(r.Results) != 1 {
-			continue
-		}
-		if k, ok := r.Results[0].(*ssa.Const); ok && k.Value != nil && !constant.BoolVal(k.Value) {
-			continue
-		}
-		n++
-		good, why := false, "the gater can allow a duty without testing duty.Type.Valid()"
-		for _, g := range valid {
-			ok, w := an.Guarded(g, r, an.BoolGuard(0, true))
-			if ok {
-				good = true
-			} else {
-				why = w
-			}
-		}
-		c.Check("NewDutyGater closure allows only valid duty types", posOf(r), good, why)
-	}
-	if n == 0 {
-		c.Bad("NewDutyGater closure allows only valid duty types", gater.Pos(), "the gater never allows anything (or its result is not recognised)")
-	}
-	// wiring: NewDutyGater → NewConsensusController → qbft.NewConsensus → Consensus.gaterFunc
-	nc := c.Fn(c05Q + ".NewConsensus")
-	var gp *ssa.Parameter
-	for _, p := range nc.Params {
-		if an.TypeName(p.Type()) == "core.DutyGaterFunc" {
-			if gp != nil {
-				c.Bail("NewConsensus: several DutyGaterFunc parameters")
-			}
-			gp = p
-		}
-	}
-	if gp == nil {
-		c.Bail("NewConsensus: no DutyGaterFunc parameter")
-	}
-	stored, pos := false, nc.Pos()
-	for _, in := range an.Instrs(nc, false) {
-		if st, ok := in.(*ssa.Store); ok {
-			if fa, ok := st.Addr.(*ssa.FieldAddr); ok && an.FieldKey(fa.X.Type(), fa.Field) == c05Q+".Consensus.gaterFunc" {
-				stored, pos = an.Unwrap(st.Val) == ssa.Value(gp), st.Pos()
-			}
-		}
-	}
-	c.Check("NewConsensus stores its gater parameter", pos, stored, "Consensus.gaterFunc is not the gater handed to NewConsensus")
-	gidx := -1
-	for i, p := range nc.Params {
-		if p == gp {
-			gidx = i
-		}
-	}
-	ctl := c.Fn("core/consensus.NewConsensusController")
-	var cp *ssa.Parameter
-	for _, p := range ctl.Params {
-		if an.TypeName(p.Type()) == "core.DutyGaterFunc" {
-			cp = p
-		}
-	}
-	call := c.OneCall(ctl, func(cc *ssa.CallCommon) bool { return cc.StaticCallee() == nc }, "qbft.NewConsensus", false)
-	c.Check("NewConsensusController passes its gater to qbft.NewConsensus", call.Pos(), cp != nil && an.Unwrap(call.Common().Args[gidx]) == ssa.Value(cp),
-		"qbft.NewConsensus does not receive the controller's gater")
-	cidx := -1
-	for i, p := range ctl.Params {
-		if p == cp {
-			cidx = i
-		}
-	}
-	wire := c.Fn("app.wireCoreWorkflow")
-	wcall := c.OneCall(wire, func(cc *ssa.CallCommon) bool { return cc.StaticCallee() == ctl }, "consensus.NewConsensusController", false)
-	good := false
-	if cidx >= 0 {
-		if ex, ok := an.Unwrap(wcall.Common().Args[cidx]).(*ssa.Extract); ok && ex.Index == 0 {
-			if gc, ok := ex.Tuple.(*ssa.Call); ok && gc.Call.StaticCallee() == ng {
-				good, _ = an.Guarded(gc, wcall, an.DefaultGuard)
-			}
-		}
-	}
-	c.Check("wireCoreWorkflow wires core.NewDutyGater into consensus", wcall.Pos(), good, "the consensus gater is not the checked result of core.NewDutyGater")
-}
-
-// c05SameElem: a and b are the same value or loads of the same element coll[i].
-func c05SameElem(a, b ssa.Value) bool {
-	if a == b {
-		return true
-	}
-	la, ok1 := a.(*ssa.UnOp)
-	lb, ok2 := b.(*ssa.UnOp)
-	if !ok1 || !ok2 || la.Op != token.MUL || lb.Op != token.MUL {
-		return false
-	}
-	ia, ok1 := la.X.(*ssa.IndexAddr)
-	ib, ok2 := lb.X.(*ssa.IndexAddr)
-	return ok1 && ok2 && ia.X == ib.X && ia.Index == ib.Index
-}
-
-// c05LitFields resolves the values stored into the fields of a local struct (a composite literal,
+// c05StructFields resolves the values stored into the fields of a local struct (a composite literal,
 // possibly copied into a named local and amended field by field). Keys are field names. A non-empty
 // problem means the shape is not understood (the caller must not decide).
-func c05LitFields(a *ssa.Alloc, depth int) (map[string]ssa.Value, string) {
+func c05StructFields(a *ssa.Alloc, depth int) (map[string][]c05fieldStore, string) {
 	if depth > 3 {
 		return nil, "copy chain too deep"
 	}
-	out := map[string]ssa.Value{}
-	var base map[string]ssa.Value
+	out := map[string][]c05fieldStore{}
 	var whole *ssa.Store
-	var fieldStores []*ssa.Store
 	for _, ref := range *a.Referrers() {
 		switch r := ref.(type) {
 		case *ssa.FieldAddr:
@@ -1675,12 +1073,8 @@ func c05LitFields(a *ssa.Alloc, depth int) (map[string]ssa.Value, string) {
 					if x.Addr != ssa.Value(r) {
 						return nil, "address of field " + name + " is stored"
 					}
-					if _, dup := out[name]; dup {
-						return nil, "field " + name + " is assigned more than once"
-					}
-					out[name] = x.Val
-					fieldStores = append(fieldStores, x)
-				case *ssa.UnOp:
+					out[name] = append(out[name], c05fieldStore{x.Val, x})
+				case *ssa.UnOp, *ssa.DebugRef:
 				default:
 					return nil, "address of field " + name + " escapes"
 				}
@@ -1705,13 +1099,14 @@ func c05LitFields(a *ssa.Alloc, depth int) (map[string]ssa.Value, string) {
 		if !ok {
 			return nil, "struct is assigned from something other than a local literal"
 		}
-		for _, fs := range fieldStores {
-			if !an.Dominates(whole, fs) {
-				return nil, "field assignment may precede the whole-struct assignment"
+		for _, fs := range out {
+			for _, s := range fs {
+				if !an.Dominates(whole, s.st) {
+					return nil, "field assignment may precede the whole-struct assignment"
+				}
 			}
 		}
-		var problem string
-		base, problem = c05LitFields(src, depth+1)
+		base, problem := c05StructFields(src, depth+1)
 		if problem != "" {
 			return nil, problem
 		}
@@ -1724,58 +1119,627 @@ func c05LitFields(a *ssa.Alloc, depth int) (map[string]ssa.Value, string) {
 	return out, ""
 }
 
-// c05StatusMerged: the status (error/bool result) of call g flows into a phi, i.e. it is merged with
-// other values before being tested; dominance-based guard checking cannot decide such code.
-func c05StatusMerged(g ssa.CallInstruction) bool {
-	v := g.Value()
-	if v == nil {
-		return false
+// c05NewMsgProvenance: (b) provenance of every field of the Msg built by newMsg.
+func c05NewMsgProvenance(e *c05env) {
+	c := e.c
+	en := e.engine()
+	nm := c.Fn(c05Q + ".newMsg")
+	root := en.Root(nm)
+	pbT, justT, valsT := en.Term(nm.Params[0], root), en.Term(nm.Params[1], root), en.Term(nm.Params[2], root)
+	rets := en.SuccessReturns(nm, an.H05ErrNil)
+	if len(rets) == 0 {
+		c.Bail("newMsg: no successful return")
 	}
-	vals := []ssa.Value{v}
-	for _, ref := range *v.Referrers() {
-		if ex, ok := ref.(*ssa.Extract); ok {
-			vals = append(vals, ex)
+	st, ok := c.Pkg(c05Q).Types.Scope().Lookup("Msg").Type().Underlying().(*types.Struct)
+	if !ok {
+		c.Bail("qbft.Msg is not a struct")
+	}
+	for _, ret := range rets {
+		if len(ret.Results) != 2 {
+			c.Bail("newMsg: unexpected result count")
 		}
-	}
-	for _, x := range vals {
-		for _, ref := range *x.Referrers() {
-			if _, ok := ref.(*ssa.Phi); ok {
-				return true
+		var lit *ssa.Alloc
+		if ld, ok := ret.Results[0].(*ssa.UnOp); ok && ld.Op == token.MUL {
+			lit, _ = ld.X.(*ssa.Alloc)
+		}
+		if lit == nil {
+			c.Bail("newMsg: a successful return does not yield a Msg built in newMsg itself")
+		}
+		stored, problem := c05StructFields(lit, 0)
+		if problem != "" {
+			c.Bail("newMsg: cannot resolve the fields of the returned Msg: %s", problem)
+		}
+		acc := en.AcceptReturn(ret, an.H05ErrNil)
+		same := func(key string, fs []c05fieldStore, want *an.H05Term, why string) {
+			v := an.H05Verdict{Yes: true}
+			for _, s := range fs {
+				t := en.Term(s.val, root)
+				switch {
+				case an.H05Same(t, want):
+				case t.Untraced():
+					v = c05Better(an.H05Verdict{Unsure: true, Why: "the value stored cannot be traced to its origin"}, v)
+					v.Yes = false
+				default:
+					v = an.H05Verdict{Why: why}
+				}
+				if !v.Yes && !v.Unsure {
+					break
+				}
+			}
+			c05Report(c, key, posOf(ret), v, "")
+		}
+		for i := 0; i < st.NumFields(); i++ {
+			name := st.Field(i).Name()
+			fs := stored[name]
+			key := "newMsg Msg." + name + " provenance"
+			if len(fs) == 0 {
+				c.Good(key, posOf(ret), "field is left at its zero value: carries nothing from the wire")
+				continue
+			}
+			switch name {
+			case "msg":
+				same(key, fs, pbT, "Msg.msg is not the (verified) message parameter")
+			case "values":
+				same(key, fs, valsT, "Msg.values is not the recomputed-hash map parameter")
+			case "justificationProtos":
+				same(key, fs, justT, "Msg.justificationProtos is not the (verified) justification parameter")
+			case "valueHash":
+				c05Report(c, key, posOf(ret), c05HashProv(e, root, ret, acc, fs, "ValueHash", pbT, valsT), "")
+			case "preparedValueHash":
+				c05Report(c, key, posOf(ret), c05HashProv(e, root, ret, acc, fs, "PreparedValueHash", pbT, valsT), "")
+			case "justification":
+				c05Report(c, key, posOf(ret), c05JustProv(e, root, ret, acc, lit, name, fs, justT, valsT), "")
+			default:
+				c.Unsure(key, posOf(ret), "new field of qbft.Msg without a provenance rule")
 			}
 		}
 	}
-	return false
 }
 
-// c05Delegated names an in-package helper (other than the known guards) with an error result that is a
-// checked guard of the sink and receives the request or its justification list: the per-justification
-// checks may have been moved there, which this intraprocedural rule cannot follow.
-func c05Delegated(e *c05env, h *c05Handle, sink ssa.Instruction) string {
-	known := map[string]bool{c05Q + ".verifyMsg": true, c05Q + ".verifyMsgLimits": true, c05Q + ".valuesByHash": true, c05Q + ".newMsg": true}
-	for _, in := range an.Instrs(h.fn, false) {
-		call, ok := in.(*ssa.Call)
-		if !ok || call.Call.IsInvoke() || call.Call.StaticCallee() == nil {
-			continue
-		}
-		callee := call.Call.StaticCallee()
-		if callee.Pkg == nil || callee.Pkg != h.fn.Pkg || known[an.FuncName(callee)] {
-			continue
-		}
-		takes := false
-		for _, a := range call.Call.Args {
-			if an.Unwrap(a) == h.pb {
-				takes = true
+// c05HashProv: a hash field of Msg is zero, or toHash32(pbMsg.GetX()) on a path where toHash32 reported
+// it valid and its presence in the recomputed values map was checked.
+func c05HashProv(e *c05env, root *an.H05Frame, ret *ssa.Return, acc an.H05Accept, fs []c05fieldStore, pbField string, pbT, valsT *an.H05Term) an.H05Verdict {
+	en := e.engine()
+	want := an.H05ExtractT(0, an.H05CallT(c05Q+".toHash32", an.H05Field(c05PB+".QBFTMsg."+pbField, pbT)))
+	nonzero := 0
+	for _, s := range fs {
+		for _, o := range en.Origins(s.val, root) {
+			if o.Zero {
+				continue
 			}
-			if b, ok := e.read(a, "QBFTConsensusMsg.Justification"); ok && b == h.pb {
-				takes = true
+			nonzero++
+			t := en.Term(o.Val, o.Frame)
+			if !an.H05Same(t, want) {
+				if t.Untraced() {
+					return an.H05Verdict{Unsure: true, Why: "the hash stored cannot be traced to its origin"}
+				}
+				if t.Is("extract", "0") && len(t.Args) == 1 && t.Args[0].Is("call", c05Q+".toHash32") {
+					return an.H05Verdict{Why: "hash is not derived from pbMsg." + pbField}
+				}
+				return an.H05Verdict{Why: "hash is not the result of toHash32"}
 			}
-		}
-		if !takes {
-			continue
-		}
-		if ok, _ := an.Guarded(call, sink, an.DefaultGuard); ok {
-			return an.FuncName(callee)
+			call, ok := t.Val.(*ssa.Call)
+			if !ok || t.Frame == nil {
+				return an.H05Verdict{Unsure: true, Why: "toHash32 call not located"}
+			}
+			tf := t.Frame
+			okv := c05Extract(call, 1)
+			if okv == nil {
+				return an.H05Verdict{Why: "validity result of toHash32 is discarded"}
+			}
+			// where the hash is committed to: the successful return of newMsg, or the return of the helper
+			// that computed it
+			var site ssa.Instruction = ret
+			sacc := acc
+			if tf != root {
+				r, isRet := o.Site.(*ssa.Return)
+				if !isRet || r.Parent() != tf.Fn {
+					return an.H05Verdict{Unsure: true, Why: "the hash is computed by a helper in a way the checker cannot follow"}
+				}
+				site, sacc = r, nil
+			}
+			tru, fls := an.H05ConstAbs(constant.MakeBool(true)), an.H05ConstAbs(constant.MakeBool(false))
+			// with ok == false the non-zero value must not be selected
+			if o.Site != nil && o.Site.Parent() == tf.Fn && o.Site != site {
+				if reach, _ := en.ReachUnder(call, o.Site, an.H05Env{okv: fls}, nil); reach && o.Site.Block() != call.Block() {
+					return an.H05Verdict{Why: "hash is used although toHash32 reported it invalid"}
+				}
+			}
+			present := false
+			unsure := false
+			for _, in := range an.Instrs(tf.Fn, false) {
+				lk, ok := in.(*ssa.Lookup)
+				if !ok || !an.H05Same(en.Term(lk.X, tf), valsT) || !an.H05Same(en.Term(lk.Index, tf), t) {
+					continue
+				}
+				env := an.H05Env{okv: tru}
+				if lk.CommaOk {
+					found := c05Extract(lk, 1)
+					if found == nil {
+						continue
+					}
+					env[found] = fls
+				} else {
+					env[lk] = an.H05NilAbs
+				}
+				// a valid hash reaches the commit point neither with the lookup failing nor around the lookup
+				r1, imp1 := en.ReachUnder(call, site, env, sacc)
+				r2, imp2 := en.ReachUnderAvoiding(call, site, an.H05Env{okv: tru}, sacc, lk.Block())
+				if !r1 && !r2 {
+					present = true
+				} else if imp1 || imp2 {
+					unsure = true
+				}
+			}
+			if !present {
+				if unsure {
+					return an.H05Verdict{Unsure: true, Why: "the presence test of the hash is evaluated in a way the checker cannot follow"}
+				}
+				return an.H05Verdict{Why: "the message is built although values[hash] was not found (or never looked up)"}
+			}
 		}
 	}
-	return ""
+	if nonzero == 0 {
+		return an.H05Verdict{Why: "hash field is always zero"}
+	}
+	return an.H05Verdict{Yes: true}
+}
+
+// c05JustProv: Msg.justification is the list of newMsg(j, …, values) results for every element j of the
+// justification parameter, each with its error checked.
+func c05JustProv(e *c05env, root *an.H05Frame, ret *ssa.Return, acc an.H05Accept, lit *ssa.Alloc, field string, fs []c05fieldStore, justT, valsT *an.H05Term) an.H05Verdict {
+	en := e.engine()
+	nmName := c05Q + ".newMsg"
+	// every justification converted with its error checked, before the successful return
+	fa := &an.H05ForallQ{Name: "newMsg", Coll: justT, Missing: "no newMsg call on the elements of a loop over the justification parameter",
+		Inner: func(elem *an.H05Term) an.H05Query {
+			return c05CallQ(nmName, an.H05ErrNil, "no newMsg(j, nil, values) in the loop", elem, nil, valsT)
+		}}
+	fv := en.Established(fa, ret, root, acc, false)
+	if !fv.Yes {
+		if !fv.Unsure {
+			if fv.Cand {
+				fv.Why = "a justification can be skipped (hash presence unchecked) before the Msg is returned: " + fv.Why
+			} else {
+				fv.Why = "justification list is not accumulated in a loop over the justification parameter (" + fv.Why + ")"
+			}
+		}
+		return fv
+	}
+	// the list itself: an accumulator that only grows by append(acc, newMsg(elem, …, values)#0), once per iteration
+	type app struct {
+		call *ssa.Call
+		f    *an.H05Frame
+	}
+	var apps []app
+	isAppendTo := func(v ssa.Value, f *an.H05Frame, isBase func(ssa.Value) bool) (*ssa.Call, bool) {
+		call, ok := en.Resolve(v).(*ssa.Call)
+		if !ok {
+			return nil, false
+		}
+		b, ok := call.Call.Value.(*ssa.Builtin)
+		if !ok || b.Name() != "append" || len(call.Call.Args) != 2 || !isBase(call.Call.Args[0]) {
+			return nil, false
+		}
+		return call, true
+	}
+	if len(fs) == 1 && !c05InLoop(fs[0].st) {
+		// value form: a loop-carried slice (in newMsg or in the helper that builds the list)
+		// collect the appends feeding the accumulator phis
+		seen := map[ssa.Value]bool{}
+		var collect func(v ssa.Value, f *an.H05Frame) string
+		collect = func(v ssa.Value, f *an.H05Frame) string {
+			v = en.Resolve(v)
+			if seen[v] {
+				return ""
+			}
+			seen[v] = true
+			switch x := v.(type) {
+			case *ssa.Const:
+				if x.Value == nil {
+					return ""
+				}
+			case *ssa.Phi:
+				for _, ed := range x.Edges {
+					if why := collect(ed, f); why != "" {
+						return why
+					}
+				}
+				return ""
+			case *ssa.Call:
+				if call, ok := isAppendTo(x, f, func(ssa.Value) bool { return true }); ok {
+					apps = append(apps, app{call, f})
+					return collect(call.Call.Args[0], f)
+				}
+			}
+			if t := en.Term(v, f); t.Untraced() && !t.Is("opaque") {
+				return "?the justification list cannot be traced to its origin"
+			}
+			return "justification list is not built by appending to itself"
+		}
+		for _, o := range en.Origins(fs[0].val, root) {
+			if o.Zero {
+				continue
+			}
+			if why := collect(o.Val, o.Frame); why != "" {
+				if strings.HasPrefix(why, "?") {
+					return an.H05Verdict{Unsure: true, Why: why[1:]}
+				}
+				return an.H05Verdict{Why: why}
+			}
+		}
+	} else {
+		// memory form: the field of the Msg under construction is extended in place
+		for _, s := range fs {
+			if k, ok := s.val.(*ssa.Const); ok && k.Value == nil {
+				continue
+			}
+			call, ok := isAppendTo(s.val, root, func(b ssa.Value) bool {
+				ld, ok := b.(*ssa.UnOp)
+				if !ok || ld.Op != token.MUL {
+					return false
+				}
+				fa, ok := ld.X.(*ssa.FieldAddr)
+				return ok && fa.X == ssa.Value(lit) && fa.X.Type().Underlying().(*types.Pointer).Elem().Underlying().(*types.Struct).Field(fa.Field).Name() == field
+			})
+			if !ok {
+				return an.H05Verdict{Why: "justification list is not built by appending to itself"}
+			}
+			apps = append(apps, app{call, root})
+		}
+	}
+	if len(apps) == 0 {
+		return an.H05Verdict{Why: "nothing is appended to the justification list"}
+	}
+	for _, a := range apps {
+		elems := appendedElems(a.call)
+		if len(elems) != 1 {
+			return an.H05Verdict{Unsure: true, Why: "unrecognised append"}
+		}
+		t := en.Term(elems[0], a.f)
+		if !(t.Is("extract", "0") && len(t.Args) == 1 && t.Args[0].Is("call", nmName) && len(t.Args[0].Args) == 3) {
+			if t.Untraced() {
+				return an.H05Verdict{Unsure: true, Why: "an appended justification cannot be traced to its origin"}
+			}
+			return an.H05Verdict{Why: "an appended justification is not built by newMsg"}
+		}
+		if !an.H05Same(t.Args[0].Args[0], an.H05Elem(justT)) {
+			return an.H05Verdict{Why: "justification Msg is not built from the element of the justification parameter"}
+		}
+		if !an.H05Same(t.Args[0].Args[2], valsT) {
+			return an.H05Verdict{Why: "justification Msg is built with a different values map"}
+		}
+		// once per iteration, after the error check
+		var loop *an.Loop
+		for _, l := range an.LoopsContaining(a.call.Parent(), a.call.Block()) {
+			if r := en.RangeOf(l); r != nil && an.H05Same(en.Term(r.Coll, a.f), justT) {
+				loop = l
+				break
+			}
+		}
+		if loop == nil {
+			return an.H05Verdict{Why: "the append is not inside the loop over the justification parameter"}
+		}
+		for _, la := range loop.Latches {
+			if !a.call.Block().Dominates(la) {
+				return an.H05Verdict{Why: "a justification can be skipped: the append is not executed in every iteration"}
+			}
+		}
+		q := c05CallQ(nmName, an.H05ErrNil, "no newMsg call before the append", an.H05Elem(justT), nil, valsT)
+		if v := en.Established(q, a.call, a.f, nil, false); !v.Yes {
+			if !v.Unsure {
+				v.Why = "error of the nested newMsg is not checked before the append: " + v.Why
+			}
+			return v
+		}
+	}
+	return an.H05Verdict{Yes: true}
+}
+
+func c05InLoop(in ssa.Instruction) bool {
+	return an.InnermostLoop(in.Parent(), in.Block()) != nil
+}
+
+// c05ValuesByHash: (c) key is the recomputed hash of the very value stored under it.
+func c05ValuesByHash(e *c05env) {
+	c := e.c
+	en := e.engine()
+	vbh := c.Fn(c05Q + ".valuesByHash")
+	root := en.Root(vbh)
+	valsP := en.Term(vbh.Params[0], root)
+	rets := en.SuccessReturns(vbh, an.H05ErrNil)
+	if len(rets) == 0 {
+		c.Bail("valuesByHash: no successful return")
+	}
+	var resMap *an.H05Term
+	for _, r := range rets {
+		t := en.Term(r.Results[0], root)
+		if resMap != nil && !an.H05Same(resMap, t) {
+			c.Bail("valuesByHash: successful returns yield different maps")
+		}
+		resMap = t
+	}
+	if !resMap.Is("fresh") {
+		c.Bail("valuesByHash: the map returned is not created in valuesByHash")
+	}
+	var ups []c05site
+	en.Walk(root, func(in ssa.Instruction, f *an.H05Frame) {
+		if mu, ok := in.(*ssa.MapUpdate); ok && an.H05Same(en.Term(mu.Map, f), resMap) {
+			ups = append(ups, c05site{mu, f})
+		}
+	})
+	if len(ups) == 0 {
+		c.Bad("valuesByHash key is hashProto(inner value)", posOf(rets[0]), "nothing is inserted into the returned map")
+	}
+	elem := an.H05Elem(valsP)
+	for _, u := range ups {
+		up := u.in.(*ssa.MapUpdate)
+		v := an.H05Verdict{Why: "map key is not the hashProto result"}
+		kt := en.Term(up.Key, u.f)
+		switch {
+		case kt.Is("extract", "0") && len(kt.Args) == 1 && kt.Args[0].Is("call", c05Q+".hashProto") && len(kt.Args[0].Args) == 1:
+			v.Why = "hashed message is not UnmarshalNew() of the value stored under the key"
+			inner := kt.Args[0].Args[0]
+			if inner.Is("extract", "0") && len(inner.Args) == 1 && inner.Args[0].Is("call") && strings.HasSuffix(inner.Args[0].Name, ".UnmarshalNew") && len(inner.Args[0].Args) == 1 {
+				vt := en.Term(up.Value, u.f)
+				switch {
+				case !an.H05Same(vt, elem) || !an.H05Same(inner.Args[0].Args[0], elem):
+					v.Why = "stored value is not the element of the values parameter"
+					if vt.Untraced() || inner.Args[0].Args[0].Untraced() {
+						v.Unsure = true
+					}
+				default:
+					qU := &c05callQ{name: "UnmarshalNew", spec: an.H05ErrNil, missing: "UnmarshalNew does not precede the insertion", args: []*an.H05Term{elem},
+						callee: func(en *an.H05, g *ssa.Call, f *an.H05Frame) bool {
+							cal := g.Call.StaticCallee()
+							return cal != nil && cal.Name() == "UnmarshalNew"
+						}}
+					qH := c05CallQ(c05Q+".hashProto", an.H05ErrNil, "hashProto does not precede the insertion", inner)
+					v1 := en.Established(qU, up, u.f, nil, true)
+					v2 := en.Established(qH, up, u.f, nil, true)
+					switch {
+					case v1.Yes && v2.Yes:
+						v = v1
+					case v1.Unsure || v2.Unsure:
+						v = an.H05Verdict{Unsure: true, Why: "unmarshal: " + v1.Why + "; hash: " + v2.Why}
+					default:
+						v = an.H05Verdict{Why: "unmarshal: " + v1.Why + "; hash: " + v2.Why}
+					}
+				}
+			}
+		case kt.Untraced():
+			v = an.H05Verdict{Unsure: true, Why: "the map key cannot be traced to its origin"}
+		}
+		c05Report(c, "valuesByHash key is hashProto(inner value)", posOf(up), v, "")
+	}
+}
+
+// ---------------------------------------------------------------------------------------------
+// A4: verifyMsg accepts only well-formed messages signed by the peer they name as source
+
+// c05rangeQ: the site is unreachable for every out-of-range value of the integer field.
+type c05rangeQ struct {
+	field *an.H05Term
+	name  string
+	bad   func(int64) bool
+}
+
+func (q *c05rangeQ) ID() string { return "c05range:" + q.name }
+
+func (q *c05rangeQ) Direct(en *an.H05, site ssa.Instruction, f *an.H05Frame, acc an.H05Accept) an.H05Verdict {
+	var reads []ssa.Value
+	isRead := map[ssa.Value]bool{}
+	for _, in := range an.Instrs(f.Fn, false) {
+		if v, ok := in.(ssa.Value); ok && an.H05Same(en.Term(v, f), q.field) {
+			reads = append(reads, v)
+			isRead[v] = true
+		}
+	}
+	samples := map[int64]bool{0: true, 1: true, -1: true, -1 << 63: true, 1<<63 - 1: true}
+	var first ssa.Instruction
+	for _, b := range f.Fn.Blocks {
+		for _, in := range b.Instrs {
+			bin, ok := in.(*ssa.BinOp)
+			if !ok {
+				continue
+			}
+			switch bin.Op {
+			case token.EQL, token.NEQ, token.LSS, token.LEQ, token.GTR, token.GEQ:
+			default:
+				continue
+			}
+			for _, pair := range [][2]ssa.Value{{bin.X, bin.Y}, {bin.Y, bin.X}} {
+				if n, ok := an.ConstInt(pair[1]); ok && isRead[en.Resolve(pair[0])] {
+					samples[n], samples[n-1], samples[n+1] = true, true, true
+					if first == nil && en.Dom(bin, site, acc) {
+						first = bin
+					}
+				}
+			}
+		}
+	}
+	if first == nil {
+		return an.H05Verdict{Why: "no comparison of msg." + q.name + " with a constant dominates the accepting return"}
+	}
+	for n := range samples {
+		if !q.bad(n) {
+			continue
+		}
+		env := an.H05Env{}
+		for _, r := range reads {
+			env[r] = an.H05ConstAbs(constant.MakeInt64(n))
+		}
+		if reach, imp := en.ReachUnder(first, site, env, acc); reach {
+			if imp {
+				return an.H05Verdict{Unsure: true, Cand: true, Why: "the range test of msg." + q.name + " is evaluated in a way the checker cannot follow"}
+			}
+			return an.H05Verdict{Cand: true, Why: "the accepting return is reachable with an out-of-range " + q.name}
+		}
+	}
+	return an.H05Verdict{Yes: true, Cand: true, Wit: first, WitFrame: f}
+}
+
+// c05lookupQ: the key table was looked up by the message's own peer index and a missing entry rejects.
+type c05lookupQ struct{ table, index *an.H05Term }
+
+func (q *c05lookupQ) ID() string { return "c05lookup" }
+
+func (q *c05lookupQ) Direct(en *an.H05, site ssa.Instruction, f *an.H05Frame, acc an.H05Accept) an.H05Verdict {
+	best := an.H05Verdict{Why: "no lookup"}
+	for _, in := range an.Instrs(f.Fn, false) {
+		lk, ok := in.(*ssa.Lookup)
+		if !ok || !an.H05Same(en.Term(lk.X, f), q.table) || !an.H05Same(en.Term(lk.Index, f), q.index) {
+			continue
+		}
+		env := an.H05Env{}
+		if lk.CommaOk {
+			okv := c05Extract(lk, 1)
+			if okv == nil {
+				best = c05Better(best, an.H05Verdict{Cand: true, Why: "a peer index without a key in the cluster is not rejected"})
+				continue
+			}
+			env[okv] = an.H05ConstAbs(constant.MakeBool(false))
+		} else {
+			env[lk] = an.H05NilAbs
+		}
+		if !en.Dom(lk, site, acc) {
+			best = c05Better(best, an.H05Verdict{Cand: true, Why: "the key lookup does not dominate the accepting return"})
+			continue
+		}
+		reach, imp := en.ReachUnder(lk, site, env, acc)
+		switch {
+		case !reach:
+			return an.H05Verdict{Yes: true, Cand: true, Wit: lk, WitFrame: f}
+		case imp:
+			best = c05Better(best, an.H05Verdict{Unsure: true, Cand: true, Why: "the result of the key lookup is tested in a way the checker cannot follow"})
+		default:
+			best = c05Better(best, an.H05Verdict{Cand: true, Why: "a peer index without a key in the cluster is not rejected"})
+		}
+	}
+	return best
+}
+
+func c05A4(e *c05env) {
+	c := e.c
+	en := e.engine()
+	fn := c.Fn(c05Q + ".verifyMsg")
+	root := en.Root(fn)
+	msgT, keysT := en.Term(fn.Params[0], root), en.Term(fn.Params[1], root)
+	sinks := en.SuccessReturns(fn, an.H05ErrNil)
+	if len(sinks) == 0 {
+		c.Bail("verifyMsg: no successful return found")
+	}
+	fld := func(f string) *an.H05Term { return an.H05Field(c05PB+".QBFTMsg."+f, msgT) }
+	idxT := fld("PeerIdx")
+	keyT := an.H05T("lookup", "", keysT, idxT)
+	// the lookup exists at all (in verifyMsg or a helper)
+	var lookupPos token.Pos
+	haveLookup := false
+	en.Walk(root, func(in ssa.Instruction, f *an.H05Frame) {
+		if lk, ok := in.(*ssa.Lookup); ok && an.H05Same(en.Term(lk.X, f), keysT) && an.H05Same(en.Term(lk.Index, f), idxT) {
+			haveLookup, lookupPos = true, lk.Pos()
+		}
+	})
+	for _, sink := range sinks {
+		acc := en.AcceptReturn(sink, an.H05ErrNil)
+		est := func(q an.H05Query) an.H05Verdict { return en.Established(q, sink, root, acc, false) }
+		pos := posOf(sink)
+		boolTrue := an.H05Spec{BoolIdx: 0, BoolWant: true}
+		c05Report(c, "verifyMsg type valid→accept", pos,
+			est(c05CallQ("core/qbft.MsgType.Valid", boolTrue, "no core/qbft.MsgType.Valid() test of the message's field", fld("Type"))), "")
+		c05Report(c, "verifyMsg duty type valid→accept", pos,
+			est(c05CallQ("core.DutyType.Valid", boolTrue, "no core.DutyType.Valid() test of the message's field", an.H05Field(c05PB+".Duty.Type", fld("Duty")))), "")
+		c05Report(c, "verifyMsg round>0→accept", pos, est(&c05rangeQ{fld("Round"), "Round", func(n int64) bool { return n <= 0 }}), "")
+		c05Report(c, "verifyMsg preparedRound>=0→accept", pos, est(&c05rangeQ{fld("PreparedRound"), "PreparedRound", func(n int64) bool { return n < 0 }}), "")
+		if !haveLookup {
+			c.Bad("verifyMsg key = pubkeys[msg.PeerIdx]", pos, "the public key is not looked up by the message's own peer index")
+			c.Bad("verifyMsg unknown peer→reject", pos, "no lookup")
+			c.Bad("verifyMsg verifyMsgSig(msg, key)→accept", pos, "no lookup")
+			continue
+		}
+		c.Good("verifyMsg key = pubkeys[msg.PeerIdx]", lookupPos, "")
+		c05Report(c, "verifyMsg unknown peer→reject", lookupPos, est(&c05lookupQ{keysT, idxT}), "")
+		sv := est(c05CallQ(c05Q+".verifyMsgSig", an.H05Bool(0, true), "no verifyMsgSig(msg, pubkeys[msg.PeerIdx]) call", msgT, keyT))
+		if !sv.Yes && !sv.Unsure && !sv.Cand && strings.Contains(sv.Why, "something else") {
+			sv.Why = "verifyMsgSig is not applied to the message and the key of its own source index"
+		}
+		c05Report(c, "verifyMsg verifyMsgSig(msg, key)→accept", pos, sv, "")
+	}
+
+	// Msg.Source() is that same signed field
+	src := c.Fn(c05Q + ".Msg.Source")
+	sroot := en.Root(src)
+	want := an.H05Field(c05PB+".QBFTMsg.PeerIdx", an.H05Field(c05Q+".Msg.msg", en.Term(src.Params[0], sroot)))
+	for _, r := range an.Returns(src) {
+		good, unsure := false, false
+		if len(r.Results) == 1 {
+			t := en.Term(r.Results[0], sroot)
+			good, unsure = an.H05Same(t, want), t.Untraced()
+		}
+		if !good && unsure {
+			c.Unsure("Msg.Source returns msg.PeerIdx", posOf(r), "the value returned cannot be traced to its origin")
+			continue
+		}
+		c.Check("Msg.Source returns msg.PeerIdx", posOf(r), good, "Source() is not the PeerIdx of the signed message the key was looked up with")
+	}
+
+	// the key table maps index i to the key of peers[i]
+	nc := c.Fn(c05Q + ".NewConsensus")
+	nroot := en.Root(nc)
+	var keysMap *an.H05Term
+	en.Walk(nroot, func(in ssa.Instruction, f *an.H05Frame) {
+		if st, ok := in.(*ssa.Store); ok {
+			if fa, ok := st.Addr.(*ssa.FieldAddr); ok && an.FieldKey(fa.X.Type(), fa.Field) == c05Q+".Consensus.pubkeys" {
+				keysMap = en.Term(st.Val, f)
+			}
+		}
+	})
+	if keysMap == nil {
+		c.Bail("NewConsensus: pubkeys field is not initialised")
+	}
+	var peersT *an.H05Term
+	for _, p := range nc.Params {
+		if sl, ok := p.Type().Underlying().(*types.Slice); ok && an.TypeName(sl.Elem()) == "p2p.Peer" {
+			peersT = en.Term(p, nroot)
+		}
+	}
+	var ups []c05site
+	en.Walk(nroot, func(in ssa.Instruction, f *an.H05Frame) {
+		if mu, ok := in.(*ssa.MapUpdate); ok && an.H05Same(en.Term(mu.Map, f), keysMap) {
+			ups = append(ups, c05site{mu, f})
+		}
+	})
+	if len(ups) == 0 {
+		c.Bad("NewConsensus pubkeys[i] = peers[i].PublicKey()", nc.Pos(), "no key is inserted into the pubkeys table")
+	}
+	for _, u := range ups {
+		up := u.in.(*ssa.MapUpdate)
+		v := an.H05Verdict{Why: "key table entry is not peers[i].PublicKey() under index i"}
+		vt := en.Term(up.Value, u.f)
+		if peersT != nil && vt.Is("extract", "0") && len(vt.Args) == 1 && vt.Args[0].Is("call") && strings.HasSuffix(vt.Args[0].Name, ".PublicKey") &&
+			len(vt.Args[0].Args) == 1 && an.H05Same(vt.Args[0].Args[0], an.H05Elem(peersT)) {
+			// index: the position of that element in the peers list
+			var rg *an.H05Range
+			for _, l := range an.LoopsContaining(up.Parent(), up.Block()) {
+				if r := en.RangeOf(l); r != nil && r.Idx != nil && an.H05Same(en.Term(r.Coll, u.f), peersT) {
+					rg = r
+					break
+				}
+			}
+			switch {
+			case rg == nil:
+				v = an.H05Verdict{Unsure: true, Why: "the loop over the peers list is not recognised"}
+			case !an.H05Same(en.Term(up.Key, u.f), en.Term(rg.Idx, u.f)):
+				v.Why = "table index is not the position of the peer in the peers list"
+			default:
+				pk := vt.Args[0].Val.(*ssa.Call)
+				q := &c05callQ{name: "PublicKey", spec: an.H05ErrNil, missing: "PublicKey() does not precede the insertion", args: []*an.H05Term{nil},
+					callee: func(en *an.H05, g *ssa.Call, f *an.H05Frame) bool { return g == pk }}
+				v = en.Established(q, up, u.f, nil, true)
+			}
+		} else if vt.Untraced() {
+			v = an.H05Verdict{Unsure: true, Why: "the key stored cannot be traced to its origin"}
+		}
+		c05Report(c, "NewConsensus pubkeys[i] = peers[i].PublicKey()", posOf(up), v, "")
+	}
 }
